@@ -100,7 +100,8 @@ Proof. vm_compute. reflexivity. Qed.
 (* Single steps                                                               *)
 (* ------------------------------------------------------------------------- *)
 (* the part of the context the fragment depends on *)
-Definition view (c : rctx) := (cur c, stack c, depth c, objects c, rectypes c, fwd c).
+Definition regs (c : rctx) := (marked c, fwd c, refcount c).
+Definition view (c : rctx) := (cur c, stack c, depth c, objects c, rectypes c, regs c).
 
 Definition bump (e : entry) : entry :=
   {| e_rule := e_rule e; e_dtype := e_dtype e; e_count := e_count e + 1; e_expected := e_expected e; e_keys := e_keys e |}.
@@ -206,7 +207,7 @@ Proof.
     (split; [cbn; tauto|]); repeat split; try discriminate; try reflexivity; try assumption.
 Qed.
 
-Lemma nno_state_view c : view (nno_state c) = (bump (cur c), stack c, depth c, objects c + 1, rectypes c, fwd c).
+Lemma nno_state_view c : view (nno_state c) = (bump (cur c), stack c, depth c, objects c + 1, rectypes c, regs c).
 Proof. reflexivity. Qed.
 
 (* S1: padding and comments *)
@@ -245,7 +246,7 @@ Lemma step_leaf cfg c e r :
   (null_allowed r = false -> is_null_event e = false) ->
   room (cur c) -> objects c + 1 <= max_object_count cfg ->
   exists c', rstep cfg c e = Some (c', [nn e]) /\
-             view c' = (adv_entry (cur c), stack c, depth c, objects c + 1, rectypes c, fwd c).
+             view c' = (adv_entry (cur c), stack c, depth c, objects c + 1, rectypes c, regs c).
 Proof.
   intros R V L N Rm O. destruct (leaf_plan cfg e L) as [pl [P [P1 [P2 [P3 [P4 [P5 P6]]]]]]].
   rewrite rstep_plan, P. unfold plan_step. rewrite P1, (nno_ok cfg c Rm O).
@@ -279,7 +280,7 @@ Lemma step_begin cfg c e r m rc dt exp :
   begin_spec e = Some (m, rc, dt, exp) -> e_rule (cur c) = r -> is_value_rule r = true ->
   room (cur c) -> objects c + 1 <= max_object_count cfg -> depth c + 1 <= max_container_depth cfg ->
   exists c', rstep cfg c e = Some (c', [e]) /\
-             view c' = (mk_entry rc dt exp, bump (cur c) :: stack c, depth c + 1, objects c + 1, rectypes c, fwd c).
+             view c' = (mk_entry rc dt exp, bump (cur c) :: stack c, depth c + 1, objects c + 1, rectypes c, regs c).
 Proof.
   intros B R V Rm O D. destruct (begin_cells r V) as [C1 [C2 [C3 [C4 _]]]]. rewrite rstep_plan.
   destruct e; try discriminate B; cbn [begin_spec] in B; inv_some; cbn [ev_plan]; unfold mkplan, plan_step;
@@ -294,7 +295,7 @@ Lemma step_begin_record cfg c id r n :
   e_rule (cur c) = r -> is_value_rule r = true -> validate_identifier cfg id = true -> alookup id (rectypes c) = Some n ->
   room (cur c) -> objects c + 1 <= max_object_count cfg -> depth c + 1 <= max_container_depth cfg ->
   exists c', rstep cfg c (ERecord id) = Some (c', [ERecord id]) /\
-             view c' = (mk_entry RRecord DT_Record (Some n), bump (cur c) :: stack c, depth c + 1, objects c + 1, rectypes c, fwd c).
+             view c' = (mk_entry RRecord DT_Record (Some n), bump (cur c) :: stack c, depth c + 1, objects c + 1, rectypes c, regs c).
 Proof.
   intros R V I A Rm O D. destruct (begin_cells r V) as [_ [_ [_ [_ C]]]]. rewrite rstep_plan.
   cbn [ev_plan]. rewrite I. unfold mkplan, plan_step. cbn [p_nno p_meth p_args p_out]. rewrite (nno_ok cfg c Rm O).
@@ -319,7 +320,7 @@ Lemma step_end cfg c p st r :
   depth c <> 0 -> match e_expected (cur c) with Some x => e_count (cur c) = x | None => True end ->
   (e_dtype (cur c) =? DT_RecordType) = false ->
   exists c', rstep cfg c EEnd = Some (c', [EEnd]) /\
-             view c' = (with_rule p (next_rule r), st, depth c - 1, objects c, rectypes c, fwd c).
+             view c' = (with_rule p (next_rule r), st, depth c - 1, objects c, rectypes c, regs c).
 Proof.
   intros Cl S R V D X T. rewrite rstep_plan. cbn [ev_plan]. unfold mkplan, plan_step. cbn [p_nno p_meth p_args p_out].
   rewrite (call_current_cell cfg _ _ c _ eq_refl), (end_cells _ Cl). cbn [exec_prims exec_prim].
@@ -352,7 +353,7 @@ Lemma step_key_gen cfg c e k rk tgt :
   existsb (nkey_eqb (norm_key k)) (e_keys (cur c)) = false ->
   room (cur c) -> objects c + 1 <= max_object_count cfg ->
   exists c', rstep cfg c e = Some (c', [e]) /\
-             view c' = (keyed (cur c) k tgt, stack c, depth c, objects c + 1, rectypes c, fwd c).
+             view c' = (keyed (cur c) k tgt, stack c, depth c, objects c + 1, rectypes c, regs c).
 Proof.
   intros R C1 C2 KO K Fr Rm O. subst rk. rewrite rstep_plan. unfold key_ok in KO. rewrite K in KO.
   destruct e as [| |v| |m t| |b| | |n|n|z|[z|]|bits|[bf|]|d|[d|]|s|b|s| | |id|id| | | |id|id|t cnt d|t d|mt d|ct d|ct d|t|mt|t ct|n m|d];
@@ -386,6 +387,391 @@ Proof.
   repeat split; apply prims_eqb_eq; assumption.
 Qed.
 
+
+(* ------------------------------------------------------------------------- *)
+(* Markers and references: the registries at the level of identifier sets     *)
+(* ------------------------------------------------------------------------- *)
+(* [RegL mkl fwl mk fw]: the alists [mkl] (markedObjects) and [fwl] (forwardLocalReferences) hold exactly the
+   ids [mk] resp. [fw]; every marked type is compatible with a value-position reference and every pending mask
+   is the value-position mask *)
+Definition RegL (mkl fwl : list (bytes * N)) (mk fw : list bytes) : Prop :=
+  (forall id, In id mk <-> In id (akeys mkl)) /\ (forall id, In id fw <-> In id (akeys fwl)) /\
+  (forall id dt, alookup id mkl = Some dt -> N.land dt Allow_Any <> 0) /\
+  (forall id al, alookup id fwl = Some al -> al = Allow_Any).
+Definition Reg (c : rctx) (mk fw : list bytes) : Prop := RegL (marked c) (fwd c) mk fw.
+
+Lemma Reg_regs c c' mk fw : regs c' = regs c -> Reg c mk fw -> Reg c' mk fw.
+Proof. unfold regs, Reg. intros E. inversion E as [[E1 E2 E3]]. rewrite E1, E2. auto. Qed.
+
+Lemma id_mem_in id l : id_mem id l = true <-> In id l.
+Proof.
+  unfold id_mem. rewrite existsb_exists. split.
+  - intros [x [I E]]. apply bytes_eqb_eq in E. subst. exact I.
+  - intro I. exists id. split; [exact I | apply bytes_eqb_refl].
+Qed.
+Lemma id_mem_false id l : id_mem id l = false <-> ~ In id l.
+Proof. rewrite <- id_mem_in. destruct (id_mem id l); split; congruence. Qed.
+Lemma id_remove_in id l x : In x (id_remove id l) <-> In x l /\ x <> id.
+Proof.
+  unfold id_remove. rewrite filter_In. split; intros [H1 H2]; split; auto.
+  - intro E. subst. rewrite bytes_eqb_refl in H2. discriminate.
+  - rewrite bytes_eqb_neq by exact H2. reflexivity.
+Qed.
+
+Lemma any_mask : N.land Allow_Any Allow_Any = Allow_Any /\ Allow_Any <> 0.
+Proof. vm_compute. split; [reflexivity | discriminate]. Qed.
+
+(* registering the current marker id *)
+Lemma mark_object_ok cfg dt c mk fw :
+  Reg c mk fw -> id_mem (marker_id c) mk = false -> refcount c + 1 <= max_local_reference_count cfg ->
+  N.land dt Allow_Any <> 0 ->
+  exists mkl fwl, mark_object cfg dt c = Some (set_markers c (marker_id c) mkl fwl (refcount c + 1)) /\
+                  RegL mkl fwl (marker_id c :: mk) (id_remove (marker_id c) fw).
+Proof.
+  intros [R1 [R2 [R3 R4]]] Nm Rc Dt. unfold mark_object.
+  destruct (max_local_reference_count cfg <? refcount c + 1) eqn:X; [lia|].
+  apply id_mem_false in Nm.
+  assert (alookup (marker_id c) (marked c) = None) as A by (apply alookup_none; intro I; apply Nm; apply R1; exact I).
+  rewrite A.
+  assert (forall id, In id (marker_id c :: mk) <-> In id (akeys (aset (marker_id c) dt (marked c)))) as M1.
+  { intro id. rewrite akeys_aset. cbn [In]. rewrite R1. split; intros [H|H]; auto. }
+  assert (forall id dt0, alookup id (aset (marker_id c) dt (marked c)) = Some dt0 -> N.land dt0 Allow_Any <> 0) as M3.
+  { intros id dt0 E. rewrite alookup_aset in E. destruct (bytes_eqb id (marker_id c)); [inv_some; exact Dt | eauto]. }
+  destruct (alookup (marker_id c) (fwd c)) as [al|] eqn:F.
+  - rewrite (R4 _ _ F). rewrite N.land_comm. destruct (N.land dt Allow_Any =? 0) eqn:Z; [lia|].
+    eexists _, _. split; [reflexivity|]. split; [exact M1|]. split; [|split; [exact M3|]].
+    + intro id. rewrite id_remove_in, akeys_aremove, R2. tauto.
+    + intros id al0 E. rewrite alookup_aremove in E. destruct (bytes_eqb id (marker_id c)); [discriminate | eauto].
+  - eexists _, _. split; [reflexivity|]. split; [exact M1|]. split; [|split; [exact M3 | exact R4]].
+    intro id. rewrite id_remove_in, R2. split; [tauto|]. intro I. split; [exact I|]. intro E. subst.
+    apply alookup_none in F. contradiction.
+Qed.
+
+(* a value-position reference *)
+Lemma local_reference_ok id c mk fw :
+  Reg c mk fw ->
+  exists fwl, local_reference id Allow_Any c =
+                Some (if id_mem id mk then c else set_markers c (marker_id c) (marked c) fwl (refcount c)) /\
+              RegL (marked c) (if id_mem id mk then fwd c else fwl) mk (if id_mem id mk || id_mem id fw then fw else id :: fw).
+Proof.
+  intros [R1 [R2 [R3 R4]]]. unfold local_reference. destruct any_mask as [L1 L2].
+  destruct (id_mem id mk) eqn:Mm.
+  - apply id_mem_in in Mm. apply R1 in Mm. apply alookup_in in Mm as [dt A]. rewrite A.
+    destruct (N.land dt Allow_Any =? 0) eqn:Z; [apply N.eqb_eq in Z; exfalso; exact (R3 _ _ A Z)|].
+    exists (fwd c). cbn [orb]. split; [reflexivity|]. repeat split; auto; apply R1 || apply R2.
+  - apply id_mem_false in Mm.
+    assert (alookup id (marked c) = None) as A by (apply alookup_none; intro I; apply Mm; apply R1; exact I).
+    rewrite A. cbn [orb]. eexists. split; [reflexivity|].
+    assert ((if (match alookup id (fwd c) with Some x => x | None => 0 end) =? 0 then Allow_Any
+             else N.land (match alookup id (fwd c) with Some x => x | None => 0 end) Allow_Any) = Allow_Any) as V.
+    { destruct (alookup id (fwd c)) as [x|] eqn:F; [rewrite (R4 _ _ F), L1; destruct (Allow_Any =? 0); reflexivity | reflexivity]. }
+    rewrite V. split; [exact R1|]. split; [|split; [exact R3|]].
+    + intro x. rewrite akeys_aset. destruct (id_mem id fw) eqn:Fm.
+      * apply id_mem_in in Fm. rewrite R2. split; [tauto|]. intros [->|H]; [apply R2; exact Fm | exact H].
+      * cbn [In]. rewrite R2. split; intros [H|H]; auto.
+    + intros x al E. rewrite alookup_aset in E. destruct (bytes_eqb x id); [inv_some; reflexivity | eauto].
+Qed.
+
+(* ------------------------------------------------------------------------- *)
+(* Marker and reference cells                                                 *)
+(* ------------------------------------------------------------------------- *)
+Lemma marker_cells :
+  prims_eqb (dispatch RMarkedObjectAnyType MKeyableObject) [PUnstackRule; PForwardCurrent MKeyableObject; PMarkObject DtArg] &&
+  prims_eqb (dispatch RMarkedObjectAnyType MNonKeyableObject) [PUnstackRule; PForwardCurrentKeyableEmptyKey; PMarkObject DtArg] &&
+  prims_eqb (dispatch RMarkedObjectAnyType MNull) [PUnstackRule; PForwardCurrent MNull; PMarkObject DtNull] &&
+  prims_eqb (dispatch RMarkedObjectAnyType MArray) [PAssertArrayType MaskMarkable; PUnstackRule; PForwardCurrent MArray; PMarkObject DtOfArrayType] &&
+  prims_eqb (dispatch RMarkedObjectAnyType MStringlikeArray) [PAssertArrayType MaskMarkable; PUnstackRule; PForwardCurrent MStringlikeArray; PMarkObject DtOfArrayType] &&
+  prims_eqb (dispatch RMarkedObjectAnyType MList) [PForwardParent MList] &&
+  prims_eqb (dispatch RMarkedObjectAnyType MMap) [PForwardParent MMap] &&
+  prims_eqb (dispatch RMarkedObjectAnyType MRecord) [PForwardParent MRecord] &&
+  prims_eqb (dispatch RMarkedObjectAnyType MEdge) [PBeginEdge] &&
+  prims_eqb (dispatch RMarkedObjectAnyType MNode) [PBeginNode] &&
+  prims_eqb (dispatch RMarkedObjectAnyType MPadding) [] &&
+  prims_eqb (dispatch RMarkedObjectAnyType MChildContainerEnded) [PMarkContainer; PUnstackRule; PForwardCurrent MChildContainerEnded] = true.
+Proof. vm_compute. reflexivity. Qed.
+
+Definition is_marker_begin (cell : list prim) : bool := match cell with [PBeginMarkerAnyType _] => true | _ => false end.
+Lemma value_marker_table :
+  forallb (fun r => is_marker_begin (dispatch r MMarker) &&
+                    (rule_beq r RTopLevel ||
+                     prims_eqb (dispatch r MReferenceLocal) (PLocalReferenceAnyType :: change_cell (expected_change r)))) value_rules = true.
+Proof. vm_compute. reflexivity. Qed.
+
+Lemma any_dtypes :
+  N.land DT_List Allow_Any <> 0 /\ N.land DT_Map Allow_Any <> 0 /\ N.land DT_Edge Allow_Any <> 0 /\ N.land DT_Record Allow_Any <> 0 /\
+  N.land DT_Null Allow_Any <> 0 /\ N.land DT_Bool Allow_Any <> 0 /\ N.land DT_Int Allow_Any <> 0 /\ N.land DT_UID Allow_Any <> 0 /\
+  N.land DT_Time Allow_Any <> 0 /\ N.land DT_Float Allow_Any <> 0 /\ N.land DT_Nan Allow_Any <> 0 /\
+  N.land Allow_Markable Allow_Any = Allow_Markable.
+Proof. vm_compute. repeat split; discriminate. Qed.
+
+Lemma markable_any dt : N.land dt Allow_Markable <> 0 -> N.land dt Allow_Any <> 0.
+Proof.
+  intros H Z. apply H. destruct any_dtypes as [_ [_ [_ [_ [_ [_ [_ [_ [_ [_ [_ E]]]]]]]]]]].
+  rewrite <- E, N.land_assoc, (N.land_comm dt), <- N.land_assoc, Z, N.land_0_r. reflexivity.
+Qed.
+
+(* a marker entry carrying [id] *)
+Definition is_marker_entry (e : entry) (id : bytes) : Prop :=
+  e_rule e = RMarkedObjectAnyType /\ e_expected e = None /\ e_keys e = [NkString id].
+
+(* S7: a marker where a value may start *)
+Lemma step_marker cfg c id r :
+  e_rule (cur c) = r -> is_value_rule r = true -> validate_identifier cfg id = true ->
+  room (cur c) -> objects c + 1 <= max_object_count cfg ->
+  exists c', rstep cfg c (EMarker id) = Some (c', [EMarker id]) /\
+             is_marker_entry (cur c') id /\ stack c' = bump (cur c) :: stack c /\ depth c' = depth c /\
+             objects c' = objects c + 1 /\ rectypes c' = rectypes c /\ regs c' = regs c /\ marker_id c' = id.
+Proof.
+  intros R V I Rm O. apply in_value_rules in V.
+  pose proof value_marker_table as T. rewrite forallb_forall in T. specialize (T r V). apply andb_true_iff in T as [T _].
+  rewrite rstep_plan. cbn [ev_plan]. rewrite I. unfold mkplan, plan_step. cbn [p_nno p_meth p_args p_out].
+  rewrite (nno_ok cfg c Rm O). rewrite (call_current_cell cfg _ _ (nno_state c) r) by (cbn; exact R).
+  destruct (dispatch r MMarker) as [|p l]; [discriminate T|]. destruct p; try discriminate T. destruct l; [|discriminate T].
+  cbn [exec_prims exec_prim with_id a_id]. eexists. split; [reflexivity|]. unfold is_marker_entry, nno_state. rsimpl.
+  repeat split; reflexivity.
+Qed.
+
+(* padding after a marker *)
+Lemma step_marker_pad cfg c id :
+  is_marker_entry (cur c) id -> rstep cfg c EPadding = Some (c, [EPadding]).
+Proof.
+  intros [R _]. rewrite rstep_plan. cbn [ev_plan]. unfold mkplan, plan_step. cbn [p_nno p_meth p_args p_out].
+  rewrite (call_current_cell cfg _ _ c _ R).
+  pose proof marker_cells as T. apply andb_true_iff in T as [T _]. apply andb_true_iff in T as [_ T]. apply prims_eqb_eq in T.
+  rewrite T. reflexivity.
+Qed.
+Lemma steps_marker_pads cfg c id n : is_marker_entry (cur c) id -> steps cfg c (repeat EPadding n) = Some c.
+Proof. intro M. induction n as [|n IH]; [reflexivity|]. cbn [repeat steps]. rewrite (step_marker_pad cfg c id M). exact IH. Qed.
+
+(* S8: a reference in value position *)
+Lemma step_ref cfg c id r mk fw :
+  e_rule (cur c) = r -> is_value_rule r = true -> r <> RTopLevel -> validate_identifier cfg id = true ->
+  room (cur c) -> objects c + 1 <= max_object_count cfg -> Reg c mk fw ->
+  exists c', rstep cfg c (ERefLocal id) = Some (c', [ERefLocal id]) /\
+             cur c' = adv_entry (cur c) /\ stack c' = stack c /\ depth c' = depth c /\ objects c' = objects c + 1 /\
+             rectypes c' = rectypes c /\ refcount c' = refcount c /\
+             Reg c' mk (if id_mem id mk || id_mem id fw then fw else id :: fw).
+Proof.
+  intros R V NT I Rm O Rg. pose proof V as V'. apply in_value_rules in V.
+  pose proof value_marker_table as T. rewrite forallb_forall in T. specialize (T r V). apply andb_true_iff in T as [_ T].
+  apply orb_true_iff in T as [T|T]; [apply rule_beq_true in T; contradiction|]. apply prims_eqb_eq in T.
+  rewrite rstep_plan. cbn [ev_plan]. rewrite I. unfold mkplan, plan_step. cbn [p_nno p_meth p_args p_out].
+  rewrite (nno_ok cfg c Rm O). rewrite (call_current_cell cfg _ _ (nno_state c) r) by (cbn; exact R). rewrite T.
+  cbn [exec_prims exec_prim with_id a_id].
+  assert (Reg (nno_state c) mk fw) as Rg1 by exact Rg.
+  destruct (local_reference_ok id (nno_state c) mk fw Rg1) as [fwl [L RL]]. rewrite L.
+  assert (forall c1, cur c1 = bump (cur c) ->
+            exec_prims cfg (call_rule 5 cfg) r MReferenceLocal (with_id id) (change_cell (expected_change r)) c1 =
+            Some (set_cur c1 (adv_entry (cur c)))) as Ch.
+  { intros c1 E. unfold expected_change. destruct (rule_beq r (next_rule r)) eqn:B; cbn [change_cell exec_prims exec_prim].
+    - apply rule_beq_true in B. f_equal. unfold adv_entry. rewrite R, <- B.
+      replace r with (e_rule (bump (cur c))) by (cbn; exact R). rewrite with_rule_same, <- E. destruct c1; reflexivity.
+    - unfold set_rule. rewrite E. unfold adv_entry. rewrite R. reflexivity. }
+  destruct (id_mem id mk) eqn:Mm; cbn [orb] in RL |- *.
+  - rewrite Ch by reflexivity. eexists. split; [reflexivity|]. unfold nno_state. rsimpl. do 6 (split; [reflexivity|]). exact RL.
+  - rewrite Ch by reflexivity. eexists. split; [reflexivity|]. unfold nno_state. rsimpl. do 6 (split; [reflexivity|]). exact RL.
+Qed.
+
+(* ------------------------------------------------------------------------- *)
+(* A marked value delivered in one event                                      *)
+(* ------------------------------------------------------------------------- *)
+Lemma leaf_plan2 cfg e pl :
+  leaf_ok cfg e = true -> ev_plan cfg e = Some pl ->
+  p_meth pl <> MChildContainerEnded /\
+  (p_meth pl = MKeyableObject \/ p_meth pl = MNonKeyableObject -> N.land (a_dtype (p_args pl)) Allow_Any <> 0) /\
+  (markable (VLeaf e) = true -> p_meth pl = MArray \/ p_meth pl = MStringlikeArray ->
+   assert_array_type (a_arrty (p_args pl)) Allow_Markable = true).
+Proof.
+  destruct any_dtypes as [_ [_ [_ [_ [_ [A1 [A2 [A3 [A4 [A5 [A6 _]]]]]]]]]]].
+  destruct e as [| |v| |m t| |b| | |n|n|z|[z|]|bits|[bf|]|[| | |]|[[| | |]|]|s|b|s| | |id|id| | | |id|id|t cnt d|t d|mt d|ct d|ct d|t|mt|t ct|n m|d];
+    cbn [leaf_ok]; intros L P; try discriminate L; cbn [ev_plan] in P;
+    repeat match goal with H : _ && _ = true |- _ => apply andb_true_iff in H as [H ?] end;
+    try match goal with H : array_api_ok _ = true |- _ => rewrite H in P end;
+    try match type of P with (if ?b then _ else _) = _ => destruct b end;
+    unfold mkplan in P; inv_some; cbn [p_meth p_args a_dtype a_arrty key_args with_dtype no_args array_args markable];
+    (split; [discriminate|]);
+    (split; [intro HH; first [assumption | destruct HH as [X|X]; discriminate X]
+            | intros Mk HH; first [exact Mk | destruct HH as [X|X]; discriminate X]]).
+Qed.
+
+Lemma unstack_cons c p st : stack c = p :: st -> unstack_rule c = Some (set_cur (set_stack c st) p).
+Proof. unfold unstack_rule. intros ->. reflexivity. Qed.
+
+Lemma call_rule_cell f cfg c r m a :
+  e_rule (cur c) = r -> call_rule (S f) cfg (e_rule (cur c)) m a c = exec_prims cfg (call_rule f cfg) r m a (dispatch r m) c.
+Proof. intros ->. reflexivity. Qed.
+
+(* unstack the marker entry, hand the value to the parent rule, register the marker *)
+Lemma marked_tail cfg f c1 p st r m' a' dt mk fw :
+  stack c1 = p :: st -> e_rule p = r -> is_value_rule r = true -> In m' leaf_meths -> (m' = MNull -> null_allowed r = true) ->
+  (m' = MArray -> validate_full_array_any cfg (a_arrty a') (a_count a') (a_data a') = true /\
+                  assert_array_type (a_arrty a') Allow_NonNull = true /\ assert_array_type (a_arrty a') Allow_Any = true) ->
+  (m' = MStringlikeArray -> validate_full_array_stringlike cfg (a_arrty a') (a_data a') = true /\
+                  assert_array_type (a_arrty a') Allow_NonNull = true /\ assert_array_type (a_arrty a') Allow_Any = true) ->
+  Reg c1 mk fw -> id_mem (marker_id c1) mk = false -> refcount c1 + 1 <= max_local_reference_count cfg ->
+  N.land dt Allow_Any <> 0 ->
+  exists c', match unstack_rule c1 with
+             | Some c2 => match call_rule (S f) cfg (e_rule (cur c2)) m' a' c2 with
+                          | Some c3 => match mark_object cfg dt c3 with Some c4 => Some c4 | None => None end
+                          | None => None
+                          end
+             | None => None
+             end = Some c' /\
+             cur c' = with_rule p (next_rule r) /\ stack c' = st /\ depth c' = depth c1 /\ objects c' = objects c1 /\
+             rectypes c' = rectypes c1 /\ refcount c' = refcount c1 + 1 /\
+             Reg c' (marker_id c1 :: mk) (id_remove (marker_id c1) fw).
+Proof.
+  intros S R V M HN HA HS Rg Nm Rc Dt. rewrite (unstack_cons _ _ _ S).
+  rewrite (call_rule_cell f cfg (set_cur (set_stack c1 st) p) r m' a') by exact R.
+  rewrite (value_cell_exec cfg f r m' a' _ V M HN HA HS) by exact R. rsimpl.
+  match goal with |- context [mark_object cfg dt ?c3] =>
+    destruct (mark_object_ok cfg dt c3 mk fw) as [mkl [fwl [E RL]]]; [exact Rg | exact Nm | exact Rc | exact Dt |] end.
+  rewrite E. eexists. split; [reflexivity|]. rsimpl. do 6 (split; [reflexivity|]). exact RL.
+Qed.
+
+Lemma step_marked_leaf cfg c e id p st r mk fw :
+  is_marker_entry (cur c) id -> stack c = p :: st -> e_rule p = r -> is_value_rule r = true -> marker_id c = id ->
+  leaf_ok cfg e = true -> markable (VLeaf e) = true -> (null_allowed r = false -> is_null_event e = false) ->
+  objects c + 1 <= max_object_count cfg ->
+  Reg c mk fw -> id_mem id mk = false -> refcount c + 1 <= max_local_reference_count cfg ->
+  exists c', rstep cfg c e = Some (c', [nn e]) /\
+             cur c' = with_rule p (next_rule r) /\ stack c' = st /\ depth c' = depth c /\ objects c' = objects c + 1 /\
+             rectypes c' = rectypes c /\ refcount c' = refcount c + 1 /\ Reg c' (id :: mk) (id_remove id fw).
+Proof.
+  intros [M1 [M2 M3]] S R V Mi L Mk N O Rg Nm Rc.
+  destruct (leaf_plan cfg e L) as [pl [P [P1 [P2 [P3 [P4 [P5 P6]]]]]]].
+  destruct (leaf_plan2 cfg e pl L P) as [Q1 [Q2 Q3]].
+  rewrite rstep_plan, P. unfold plan_step. rewrite P1.
+  rewrite (nno_ok cfg c); [| unfold room; rewrite M2; exact I | exact O]. rewrite P2.
+  rewrite (call_current_cell cfg _ _ (nno_state c) RMarkedObjectAnyType) by (cbn; exact M1).
+  pose proof marker_cells as T. do 7 (apply andb_true_iff in T as [T _]).
+  apply andb_true_iff in T as [T T5]. apply andb_true_iff in T as [T T4]. apply andb_true_iff in T as [T T3].
+  apply andb_true_iff in T as [T1 T2]. apply prims_eqb_eq in T1, T2, T3, T4, T5.
+  assert (Reg (nno_state c) mk fw) as Rg1 by exact Rg.
+  assert (stack (nno_state c) = p :: st) as S1 by exact S.
+  assert (id_mem (marker_id (nno_state c)) mk = false) as Nm1 by (cbn; rewrite Mi; exact Nm).
+  assert (refcount (nno_state c) + 1 <= max_local_reference_count cfg) as Rc1 by exact Rc.
+  destruct any_dtypes as [_ [_ [_ [_ [AN _]]]]].
+  assert (forall c', (cur c' = with_rule p (next_rule r) /\ stack c' = st /\ depth c' = depth (nno_state c) /\
+                      objects c' = objects (nno_state c) /\ rectypes c' = rectypes (nno_state c) /\
+                      refcount c' = refcount (nno_state c) + 1 /\
+                      Reg c' (marker_id (nno_state c) :: mk) (id_remove (marker_id (nno_state c)) fw)) ->
+                     cur c' = with_rule p (next_rule r) /\ stack c' = st /\ depth c' = depth c /\ objects c' = objects c + 1 /\
+                     rectypes c' = rectypes c /\ refcount c' = refcount c + 1 /\ Reg c' (id :: mk) (id_remove id fw)) as Fin.
+  { intros c' H. cbn [nno_state marker_id set_objects set_cur depth objects rectypes refcount] in H. rewrite Mi in H. exact H. }
+  cbn [In leaf_meths] in P3. destruct P3 as [M|[M|[M|[M|[M|[M|[]]]]]]]; symmetry in M; try contradiction.
+  - (* keyable *)
+    rewrite M, T1. cbn [exec_prims exec_prim].
+    destruct (marked_tail cfg 4 (nno_state c) p st r MKeyableObject (p_args pl) (a_dtype (p_args pl)) mk fw S1 R V) as [c' [E H]];
+      try assumption; try (intro X; discriminate X); [cbn; tauto | apply Q2; auto |].
+    rewrite E. exists c'. split; [reflexivity | apply Fin; exact H].
+  - (* non-keyable *)
+    rewrite M, T2. cbn [exec_prims exec_prim].
+    destruct (marked_tail cfg 4 (nno_state c) p st r MKeyableObject (with_key (p_args pl) (Some (RkString []))) (a_dtype (p_args pl)) mk fw S1 R V) as [c' [E H]];
+      try assumption; try (intro X; discriminate X); [cbn; tauto | apply Q2; auto |].
+    rewrite E. exists c'. split; [reflexivity | apply Fin; exact H].
+  - (* null *)
+    rewrite M, T3. cbn [exec_prims exec_prim].
+    destruct (marked_tail cfg 4 (nno_state c) p st r MNull (p_args pl) DT_Null mk fw S1 R V) as [c' [E H]];
+      try assumption; try (intro X; discriminate X); [cbn; tauto | | ].
+    { intros _. destruct (null_allowed r) eqn:NA; [reflexivity|]. rewrite (N eq_refl) in P4. specialize (P4 M). discriminate. }
+    rewrite E. exists c'. split; [reflexivity | apply Fin; exact H].
+  - (* array *)
+    rewrite M, T4. cbn [exec_prims exec_prim mask_value]. pose proof (Q3 Mk (or_introl M)) as AM. rewrite AM.
+    unfold assert_array_type in AM. destruct (array_dtype (a_arrty (p_args pl))) as [dt|] eqn:AD; [|discriminate].
+    apply negb_true_iff in AM. apply N.eqb_neq in AM. cbv beta iota.
+    destruct (marked_tail cfg 4 (nno_state c) p st r MArray (p_args pl) dt mk fw S1 R V) as [c' [E H]];
+      try assumption; try (intro X; discriminate X); [cbn; tauto | intros _; apply P5; exact M | apply markable_any; exact AM |].
+    rewrite E. exists c'. split; [reflexivity | apply Fin; exact H].
+  - (* string-like array *)
+    rewrite M, T5. cbn [exec_prims exec_prim mask_value]. pose proof (Q3 Mk (or_intror M)) as AM. rewrite AM.
+    unfold assert_array_type in AM. destruct (array_dtype (a_arrty (p_args pl))) as [dt|] eqn:AD; [|discriminate].
+    apply negb_true_iff in AM. apply N.eqb_neq in AM. cbv beta iota.
+    destruct (marked_tail cfg 4 (nno_state c) p st r MStringlikeArray (p_args pl) dt mk fw S1 R V) as [c' [E H]];
+      try assumption; try (intro X; discriminate X); [cbn; tauto | intros _; apply P6; exact M | apply markable_any; exact AM |].
+    rewrite E. exists c'. split; [reflexivity | apply Fin; exact H].
+Qed.
+
+(* ------------------------------------------------------------------------- *)
+(* A marked container                                                         *)
+(* ------------------------------------------------------------------------- *)
+Lemma marker_container_cells :
+  dispatch RMarkedObjectAnyType MList = [PForwardParent MList] /\ dispatch RMarkedObjectAnyType MMap = [PForwardParent MMap] /\
+  dispatch RMarkedObjectAnyType MRecord = [PForwardParent MRecord] /\ dispatch RMarkedObjectAnyType MEdge = [PBeginEdge] /\
+  dispatch RMarkedObjectAnyType MNode = [PBeginNode] /\
+  dispatch RMarkedObjectAnyType MChildContainerEnded = [PMarkContainer; PUnstackRule; PForwardCurrent MChildContainerEnded].
+Proof.
+  pose proof marker_cells as T. apply andb_true_iff in T as [T T6]. apply andb_true_iff in T as [T _].
+  apply andb_true_iff in T as [T T5]. apply andb_true_iff in T as [T T4]. apply andb_true_iff in T as [T T3].
+  apply andb_true_iff in T as [T T2]. apply andb_true_iff in T as [_ T1].
+  repeat split; apply prims_eqb_eq; assumption.
+Qed.
+
+Lemma step_marked_begin cfg c e id p st r m rc dt exp :
+  begin_spec e = Some (m, rc, dt, exp) -> is_marker_entry (cur c) id -> stack c = p :: st -> e_rule p = r -> is_value_rule r = true ->
+  objects c + 1 <= max_object_count cfg -> depth c + 1 <= max_container_depth cfg ->
+  exists c', rstep cfg c e = Some (c', [e]) /\
+             view c' = (mk_entry rc dt exp, bump (cur c) :: stack c, depth c + 1, objects c + 1, rectypes c, regs c).
+Proof.
+  intros B [M1 [M2 M3]] S R V O D. destruct (begin_cells r V) as [C1 [C2 _]].
+  destruct marker_container_cells as [K1 [K2 [_ [K4 [K5 _]]]]]. rewrite rstep_plan.
+  destruct e; try discriminate B; cbn [begin_spec] in B; inv_some; cbn [ev_plan]; unfold mkplan, plan_step;
+    cbn [p_nno p_meth p_args p_out]; (rewrite (nno_ok cfg c); [| unfold room; rewrite M2; exact I | exact O]);
+    rewrite (call_current_cell cfg _ _ (nno_state c) RMarkedObjectAnyType) by (cbn; exact M1);
+    rewrite ?K1, ?K2, ?K4, ?K5; cbn [exec_prims exec_prim];
+    try (change (stack (nno_state c)) with (stack c); rewrite S, call_rule_S, ?C1, ?C2; cbn [exec_prims exec_prim]);
+    unfold begin_container, nno_state; rsimpl;
+    (destruct (max_container_depth cfg <? depth c + 1) eqn:X; [lia|]);
+    (eexists; split; [reflexivity | first [reflexivity | rewrite <- S; reflexivity | rewrite S; reflexivity]]).
+Qed.
+
+Lemma step_marked_begin_record cfg c rid id p st r n :
+  is_marker_entry (cur c) id -> stack c = p :: st -> e_rule p = r -> is_value_rule r = true ->
+  validate_identifier cfg rid = true -> alookup rid (rectypes c) = Some n ->
+  objects c + 1 <= max_object_count cfg -> depth c + 1 <= max_container_depth cfg ->
+  exists c', rstep cfg c (ERecord rid) = Some (c', [ERecord rid]) /\
+             view c' = (mk_entry RRecord DT_Record (Some n), bump (cur c) :: stack c, depth c + 1, objects c + 1, rectypes c, regs c).
+Proof.
+  intros [M1 [M2 M3]] S R V Vi A O D. destruct (begin_cells r V) as [_ [_ [_ [_ C]]]].
+  destruct marker_container_cells as [_ [_ [K3 _]]]. rewrite rstep_plan.
+  cbn [ev_plan]. rewrite Vi. unfold mkplan, plan_step. cbn [p_nno p_meth p_args p_out].
+  rewrite (nno_ok cfg c); [| unfold room; rewrite M2; exact I | exact O].
+  rewrite (call_current_cell cfg _ _ (nno_state c) RMarkedObjectAnyType) by (cbn; exact M1). rewrite K3.
+  cbn [exec_prims exec_prim]. change (stack (nno_state c)) with (stack c). rewrite S, call_rule_S, R, C.
+  cbn [exec_prims exec_prim with_id a_id]. unfold nno_state. rsimpl. rewrite A. unfold begin_container. rsimpl.
+  destruct (max_container_depth cfg <? depth c + 1) eqn:X; [lia|]. eexists; split; [reflexivity | first [reflexivity | rewrite <- S; reflexivity | rewrite S; reflexivity]].
+Qed.
+
+(* the end of a marked container: the marker is registered under its own id, then the parent gets the value *)
+Lemma step_end_marked cfg c me id p st r mk fw :
+  closable (e_rule (cur c)) = true -> stack c = me :: p :: st -> is_marker_entry me id -> e_rule p = r -> is_value_rule r = true ->
+  depth c <> 0 -> match e_expected (cur c) with Some x => e_count (cur c) = x | None => True end ->
+  (e_dtype (cur c) =? DT_RecordType) = false -> N.land (e_dtype (cur c)) Allow_Any <> 0 ->
+  Reg c mk fw -> id_mem id mk = false -> refcount c + 1 <= max_local_reference_count cfg ->
+  exists c', rstep cfg c EEnd = Some (c', [EEnd]) /\
+             cur c' = with_rule p (next_rule r) /\ stack c' = st /\ depth c' = depth c - 1 /\ objects c' = objects c /\
+             rectypes c' = rectypes c /\ refcount c' = refcount c + 1 /\ Reg c' (id :: mk) (id_remove id fw).
+Proof.
+  intros Cl S [M1 [M2 M3]] R V D X T Dt Rg Nm Rc.
+  destruct marker_container_cells as [_ [_ [_ [_ [_ K]]]]].
+  rewrite rstep_plan. cbn [ev_plan]. unfold mkplan, plan_step. cbn [p_nno p_meth p_args p_out].
+  rewrite (call_current_cell cfg _ _ c _ eq_refl), (end_cells _ Cl). cbn [exec_prims exec_prim].
+  unfold end_container. destruct (depth c =? 0) eqn:D0; [lia|].
+  assert (match e_expected (cur c) with Some x => negb (e_count (cur c) =? x) | None => false end = false) as ->.
+  { destruct (e_expected (cur c)); [subst; rewrite N.eqb_refl; reflexivity | reflexivity]. }
+  rewrite T. unfold end_container_like, unstack_rule. rsimpl. rewrite S. rsimpl. rewrite M1, call_rule_S, K.
+  cbn [exec_prims exec_prim with_dtype a_dtype]. rsimpl. unfold entry_marker_id. rewrite M3.
+  match goal with |- context [mark_object cfg ?dt ?c3] =>
+    destruct (mark_object_ok cfg dt c3 mk fw) as [mkl [fwl [E RL]]]; [exact Rg | exact Nm | exact Rc | exact Dt |] end.
+  rewrite E. unfold unstack_rule. rsimpl.
+  match goal with |- context [call_rule 4 cfg ?rr MChildContainerEnded ?aa ?cc] =>
+    change (call_rule 4 cfg rr MChildContainerEnded aa cc) with (call_rule 4 cfg (e_rule (cur cc)) MChildContainerEnded aa cc);
+    rewrite (call_rule_cell 3 cfg cc r MChildContainerEnded aa) by exact R;
+    rewrite (value_cell_exec cfg 3 r MChildContainerEnded aa cc V) by (first [exact R | cbn; tauto | intro Y; discriminate Y])
+  end.
+  eexists. split; [reflexivity|]. rsimpl. do 6 (split; [reflexivity|]). exact RL.
+Qed.
+
 (* ------------------------------------------------------------------------- *)
 (* Induction on trees                                                         *)
 (* ------------------------------------------------------------------------- *)
@@ -398,6 +784,8 @@ Section ValInd.
   Hypothesis HNode : forall v items close, P v -> Forall P items -> P (VNode v items close).
   Hypothesis HEdge : forall s d t close, P s -> P d -> P t -> P (VEdge s d t close).
   Hypothesis HRecord : forall id fields close, Forall P fields -> P (VRecord id fields close).
+  Hypothesis HMarked : forall id n v, P v -> P (VMarked id n v).
+  Hypothesis HRef : forall id, P (VRef id).
 
   Fixpoint val_ind' (v : val) : P v :=
     match v with
@@ -417,23 +805,84 @@ Section ValInd.
     | VRecord id fields close =>
         HRecord id fields close ((fix go (l : list val) : Forall P l :=
                                     match l with [] => Forall_nil _ | x :: r => Forall_cons x (val_ind' x) (go r) end) fields)
+    | VMarked id n v => HMarked id n v (val_ind' v)
+    | VRef id => HRef id
     end.
 End ValInd.
 
-(* what a value does to the context *)
+Definition core (c : rctx) := (cur c, stack c, depth c, objects c, rectypes c).
+
+Lemma view_core c x1 x2 x3 x4 x5 x6 : view c = (x1, x2, x3, x4, x5, x6) -> core c = (x1, x2, x3, x4, x5) /\ regs c = x6.
+Proof. unfold view, core. intro H. inversion H. auto. Qed.
+
+(* the registry threading over lists *)
+Definition reg_entries (entries : list (list trivia * event * val)) (st : list bytes * list bytes) :=
+  reg_list (map snd entries) st.
+Lemma reg_val_list items close st : reg_val (VList items close) st = reg_list items st.
+Proof. cbn [reg_val]. revert st. induction items as [|x r IH]; intro st; [reflexivity|]. cbn [reg_list]. destruct (reg_val x st); [apply IH | reflexivity]. Qed.
+Lemma reg_val_record id items close st : reg_val (VRecord id items close) st = reg_list items st.
+Proof. cbn [reg_val]. revert st. induction items as [|x r IH]; intro st; [reflexivity|]. cbn [reg_list]. destruct (reg_val x st); [apply IH | reflexivity]. Qed.
+Lemma reg_val_node v items close st :
+  reg_val (VNode v items close) st = match reg_val v st with Some s => reg_list items s | None => None end.
+Proof.
+  cbn [reg_val]. destruct (reg_val v st) as [s|]; [|reflexivity]. revert s.
+  induction items as [|x r IH]; intro s; [reflexivity|]. cbn [reg_list]. destruct (reg_val x s); [apply IH | reflexivity].
+Qed.
+Lemma reg_val_map entries close st : reg_val (VMap entries close) st = reg_entries entries st.
+Proof.
+  cbn [reg_val]. unfold reg_entries. revert st. induction entries as [|x r IH]; intro st; [reflexivity|].
+  cbn [map reg_list]. destruct (reg_val (snd x) st); [apply IH | reflexivity].
+Qed.
+
+(* usage bookkeeping *)
+Lemma object_usage_app a b : object_usage (a ++ b) = object_usage a + object_usage b.
+Proof. apply count_if_app. Qed.
+Lemma object_usage_trivia ts : object_usage (map trivia_event ts) = 0.
+Proof. induction ts as [|t ts IH]; [reflexivity|]. unfold object_usage in *. cbn [map count_if]. rewrite IH. destruct t; reflexivity. Qed.
+Lemma object_usage_cons e l : object_usage (e :: l) = (if counts_object e then 1 else 0) + object_usage l.
+Proof. reflexivity. Qed.
+Lemma marker_usage_app a b : marker_usage (a ++ b) = marker_usage a + marker_usage b.
+Proof. apply count_if_app. Qed.
+Lemma marker_usage_trivia ts : marker_usage (map trivia_event ts) = 0.
+Proof. induction ts as [|t ts IH]; [reflexivity|]. unfold marker_usage in *. cbn [map count_if]. rewrite IH. destruct t; reflexivity. Qed.
+Lemma marker_usage_cons e l : marker_usage (e :: l) = (if is_marker e then 1 else 0) + marker_usage l.
+Proof. reflexivity. Qed.
+Lemma usage_pads n : object_usage (repeat EPadding n) = 0 /\ marker_usage (repeat EPadding n) = 0.
+Proof. induction n as [|n [I1 I2]]; [split; reflexivity|]. cbn [repeat]. rewrite object_usage_cons, marker_usage_cons, I1, I2. split; reflexivity. Qed.
+
+(* what a value does to the context, where a value may start ... *)
 Definition val_complete (cfg : rcfg) (v : val) : Prop :=
-  forall c nnull, wf_val cfg (rectypes c) nnull v = true ->
+  forall c nnull mk fw mk' fw',
+    wf_val cfg (rectypes c) nnull v = true ->
     is_value_rule (e_rule (cur c)) = true ->
     (null_allowed (e_rule (cur c)) = false -> nnull = true) ->
+    (e_rule (cur c) = RTopLevel -> top_ok v = true) ->
     room (cur c) ->
     objects c + object_usage (flatten v) <= max_object_count cfg ->
     depth c + height v <= max_container_depth cfg ->
+    Reg c mk fw -> reg_val v (mk, fw) = Some (mk', fw') ->
+    refcount c + marker_usage (flatten v) <= max_local_reference_count cfg ->
     exists c', steps cfg c (flatten v) = Some c' /\
-               view c' = (adv_entry (cur c), stack c, depth c, objects c + object_usage (flatten v), rectypes c, fwd c).
+               core c' = (adv_entry (cur c), stack c, depth c, objects c + object_usage (flatten v), rectypes c) /\
+               Reg c' mk' fw' /\ refcount c' = refcount c + marker_usage (flatten v).
+
+(* ... and right after a marker (the marker entry is in force, the parent entry [p] expects the value) *)
+Definition marked_complete (cfg : rcfg) (v : val) : Prop :=
+  forall c id p st nnull mk fw mk' fw',
+    markable v = true -> wf_val cfg (rectypes c) nnull v = true ->
+    is_marker_entry (cur c) id -> stack c = p :: st -> is_value_rule (e_rule p) = true -> marker_id c = id ->
+    (null_allowed (e_rule p) = false -> nnull = true) ->
+    objects c + object_usage (flatten v) <= max_object_count cfg ->
+    depth c + height v <= max_container_depth cfg ->
+    Reg c mk fw -> reg_val v (mk, fw) = Some (mk', fw') -> id_mem id mk' = false ->
+    refcount c + marker_usage (flatten v) + 1 <= max_local_reference_count cfg ->
+    exists c', steps cfg c (flatten v) = Some c' /\
+               core c' = (with_rule p (next_rule (e_rule p)), st, depth c, objects c + object_usage (flatten v), rectypes c) /\
+               Reg c' (id :: mk') (id_remove id fw') /\ refcount c' = refcount c + marker_usage (flatten v) + 1.
 
 (* the context after some children of a container: everything as before except the counters *)
 Definition same_upto (c c' : rctx) (nobj k : N) : Prop :=
-  stack c' = stack c /\ depth c' = depth c /\ objects c' = objects c + nobj /\ rectypes c' = rectypes c /\ fwd c' = fwd c /\
+  stack c' = stack c /\ depth c' = depth c /\ objects c' = objects c + nobj /\ rectypes c' = rectypes c /\
   e_rule (cur c') = e_rule (cur c) /\ e_dtype (cur c') = e_dtype (cur c) /\ e_count (cur c') = e_count (cur c) + k /\
   e_expected (cur c') = e_expected (cur c) /\ e_keys (cur c') = e_keys (cur c).
 
@@ -443,35 +892,35 @@ Lemma same_upto_trans c1 c2 c3 n1 k1 n2 k2 :
   same_upto c1 c2 n1 k1 -> same_upto c2 c3 n2 k2 -> same_upto c1 c3 (n1 + n2) (k1 + k2).
 Proof. unfold same_upto. intros H1 H2. decompose [and] H1. decompose [and] H2. repeat split; try congruence; lia. Qed.
 
-Lemma object_usage_app a b : object_usage (a ++ b) = object_usage a + object_usage b.
-Proof. apply count_if_app. Qed.
-Lemma object_usage_trivia ts : object_usage (map trivia_event ts) = 0.
-Proof. induction ts as [|t ts IH]; [reflexivity|]. unfold object_usage in *. cbn [map count_if]. rewrite IH. destruct t; reflexivity. Qed.
-
 (* children of a list / record: the rule stays *)
 Lemma items_complete cfg items :
   Forall (val_complete cfg) items ->
-  forall c, is_value_rule (e_rule (cur c)) = true -> next_rule (e_rule (cur c)) = e_rule (cur c) ->
+  forall c mk fw mk' fw', is_value_rule (e_rule (cur c)) = true -> next_rule (e_rule (cur c)) = e_rule (cur c) ->
     null_allowed (e_rule (cur c)) = true ->
     forallb (wf_val cfg (rectypes c) false) items = true ->
     match e_expected (cur c) with Some x => e_count (cur c) + N.of_nat (length items) <= x | None => True end ->
     objects c + object_usage (flat_map flatten items) <= max_object_count cfg ->
     depth c + list_max (map height items) <= max_container_depth cfg ->
+    Reg c mk fw -> reg_list items (mk, fw) = Some (mk', fw') ->
+    refcount c + marker_usage (flat_map flatten items) <= max_local_reference_count cfg ->
     exists c', steps cfg c (flat_map flatten items) = Some c' /\
-               same_upto c c' (object_usage (flat_map flatten items)) (N.of_nat (length items)).
+               same_upto c c' (object_usage (flat_map flatten items)) (N.of_nat (length items)) /\
+               Reg c' mk' fw' /\ refcount c' = refcount c + marker_usage (flat_map flatten items).
 Proof.
-  induction 1 as [|v items Hv Hitems IH]; intros c V Nx NA W Rm O D.
-  - exists c. split; [reflexivity | apply same_upto_refl].
-  - cbn [forallb flat_map map list_max fold_right length] in *. apply andb_true_iff in W as [W1 W2].
-    rewrite object_usage_app in O.
-    destruct (Hv c false W1 V) as [c1 [S1 V1]].
-    { rewrite NA. discriminate. }
+  induction 1 as [|v items Hv Hitems IH]; intros c mk fw mk' fw' V Nx NA W Rm O D Rg Rl Rc.
+  - cbn in Rl. inv_some. exists c. split; [reflexivity|]. split; [apply same_upto_refl|]. split; [exact Rg | cbn; lia].
+  - cbn [forallb flat_map map list_max fold_right length reg_list] in *. apply andb_true_iff in W as [W1 W2].
+    rewrite object_usage_app in O. rewrite marker_usage_app in Rc.
+    destruct (reg_val v (mk, fw)) as [[mk1 fw1]|] eqn:R1; [|discriminate].
+    assert (e_rule (cur c) <> RTopLevel) as NT by (intro X; rewrite X in Nx; discriminate Nx).
+    destruct (Hv c false mk fw mk1 fw1 W1 V) as [c1 [S1 [V1 [Rg1 Rc1]]]]; try assumption.
+    { rewrite NA. discriminate. } { intro X. contradiction. }
     { unfold room. destruct (e_expected (cur c)); [lia | exact I]. }
-    { lia. } { fold (list_max (map height items)) in D. lia. }
-    unfold view in V1. inversion V1 as [[E1 E2 E3 E4 E5 E6]]. clear V1.
+    { lia. } { fold (list_max (map height items)) in D. lia. } { lia. }
+    unfold core in V1. inversion V1 as [[E1 E2 E3 E4 E5]]. clear V1.
     assert (same_upto c c1 (object_usage (flatten v)) 1) as U1.
     { unfold same_upto. rewrite E1. unfold adv_entry. cbn. rewrite Nx. repeat split; auto. }
-    destruct (IH c1) as [c2 [S2 U2]].
+    destruct (IH c1 mk1 fw1 mk' fw') as [c2 [S2 [U2 [Rg2 Rc2]]]]; try assumption.
     + rewrite E1. cbn. rewrite Nx. exact V.
     + rewrite E1. cbn. rewrite !Nx. reflexivity.
     + rewrite E1. cbn. rewrite Nx. exact NA.
@@ -479,17 +928,15 @@ Proof.
     + rewrite E1. cbn. destruct (e_expected (cur c)); [lia | exact I].
     + rewrite E4. lia.
     + rewrite E3. fold (list_max (map height items)) in D. lia.
+    + rewrite Rc1. lia.
     + exists c2. split; [rewrite steps_app, S1; exact S2|].
-      rewrite object_usage_app. replace (N.of_nat (S (length items))) with (1 + N.of_nat (length items)) by lia.
-      eapply same_upto_trans; eauto.
+      rewrite object_usage_app, marker_usage_app. replace (N.of_nat (S (length items))) with (1 + N.of_nat (length items)) by lia.
+      split; [eapply same_upto_trans; eauto|]. split; [exact Rg2 | rewrite Rc2, Rc1; lia].
 Qed.
-
-Lemma object_usage_cons e l : object_usage (e :: l) = (if counts_object e then 1 else 0) + object_usage l.
-Proof. reflexivity. Qed.
 
 (* entries of a map *)
 Definition map_upto (c c' : rctx) (nobj : N) : Prop :=
-  stack c' = stack c /\ depth c' = depth c /\ objects c' = objects c + nobj /\ rectypes c' = rectypes c /\ fwd c' = fwd c /\
+  stack c' = stack c /\ depth c' = depth c /\ objects c' = objects c + nobj /\ rectypes c' = rectypes c /\
   e_rule (cur c') = RMapKey /\ e_dtype (cur c') = e_dtype (cur c) /\ e_expected (cur c') = e_expected (cur c).
 
 Definition entry_events (en : list trivia * event * val) : list event :=
@@ -505,48 +952,54 @@ Qed.
 Lemma key_ok_key_of cfg k : key_ok cfg k = true -> exists rk, key_of k = Some rk.
 Proof. unfold key_ok. destruct (key_of k); [eauto | discriminate]. Qed.
 
-Lemma key_event_object k rk : key_of k = Some rk -> counts_object k = true.
-Proof. destruct k; cbn; try discriminate; reflexivity. Qed.
+Lemma key_event_object k rk : key_of k = Some rk -> counts_object k = true /\ is_marker k = false.
+Proof. destruct k; cbn; try discriminate; auto. Qed.
 
 Lemma entries_complete cfg entries :
   Forall (fun en => val_complete cfg (snd en)) entries ->
-  forall c, e_rule (cur c) = RMapKey -> e_expected (cur c) = None ->
+  forall c mk fw mk' fw', e_rule (cur c) = RMapKey -> e_expected (cur c) = None ->
     forallb (fun en => let '(_, k, v) := en in key_ok cfg k && wf_val cfg (rectypes c) false v) entries = true ->
     nkeys_distinct (map (fun en => let '(_, k, _) := en in nkey_of k) entries) = true ->
     (forall tv k v nk, In (tv, k, v) entries -> nkey_of k = Some nk -> existsb (nkey_eqb nk) (e_keys (cur c)) = false) ->
     objects c + object_usage (flat_map entry_events entries) <= max_object_count cfg ->
     depth c + list_max (map (fun en => let '(_, _, v) := en in height v) entries) <= max_container_depth cfg ->
+    Reg c mk fw -> reg_entries entries (mk, fw) = Some (mk', fw') ->
+    refcount c + marker_usage (flat_map entry_events entries) <= max_local_reference_count cfg ->
     exists c', steps cfg c (flat_map entry_events entries) = Some c' /\
-               map_upto c c' (object_usage (flat_map entry_events entries)).
+               map_upto c c' (object_usage (flat_map entry_events entries)) /\
+               Reg c' mk' fw' /\ refcount c' = refcount c + marker_usage (flat_map entry_events entries).
 Proof.
-  induction 1 as [|[[tv k] v] entries Hv Hent IH]; intros c R X W Dk Fr O D.
-  - exists c. split; [reflexivity|]. unfold map_upto. cbn. repeat split; auto; lia.
-  - cbn [forallb flat_map map list_max fold_right entry_events nkeys_distinct snd] in *.
+  induction 1 as [|[[tv k] v] entries Hv Hent IH]; intros c mk fw mk' fw' R X W Dk Fr O D Rg Rl Rc.
+  - cbn in Rl. inv_some. exists c. split; [reflexivity|]. split; [unfold map_upto; cbn; repeat split; auto; lia|]. split; [exact Rg | cbn; lia].
+  - unfold reg_entries in Rl.
+    cbn [forallb flat_map map list_max fold_right entry_events nkeys_distinct snd reg_list] in *.
     apply andb_true_iff in W as [W1 W2]. apply andb_true_iff in W1 as [Wk Wv].
-    destruct (key_ok_key_of _ _ Wk) as [rk K].
+    destruct (key_ok_key_of _ _ Wk) as [rk K]. destruct (key_event_object _ _ K) as [Ko Km].
     assert (nkey_of k = Some (norm_key rk)) as NK by (unfold nkey_of; rewrite K; reflexivity).
     rewrite NK in Dk. apply andb_true_iff in Dk as [Dk1 Dk2]. apply negb_true_iff in Dk1.
-    rewrite !object_usage_app, object_usage_trivia in O. change (k :: flatten v) with ([k] ++ flatten v) in O.
-    rewrite object_usage_app in O. unfold object_usage at 1 in O. cbn [count_if] in O. rewrite (key_event_object _ _ K) in O.
+    destruct (reg_val v (mk, fw)) as [[mk1 fw1]|] eqn:R1; [|discriminate].
+    rewrite !object_usage_app, object_usage_trivia, object_usage_cons, Ko in O.
+    rewrite !marker_usage_app, marker_usage_trivia, marker_usage_cons, Km in Rc.
     (* trivia *)
     rewrite <- app_assoc, steps_app, steps_trivia by (rewrite R; reflexivity).
     (* key *)
     destruct key_cells as [C1 [C2 _]].
     destruct (step_key_gen cfg c k rk RMapKey (Some RMapValue) R C1 C2 Wk K) as [c1 [S1 V1]].
     { eapply Fr; [left; reflexivity | exact NK]. } { unfold room. rewrite X. exact I. } { lia. }
-    cbn [app steps]. rewrite S1. unfold view in V1. inversion V1 as [[E1 E2 E3 E4 E5 E6]]. clear V1.
+    cbn [app steps]. rewrite S1. apply view_core in V1 as [V1 G1]. unfold core in V1. inversion V1 as [[E1 E2 E3 E4 E5]]. clear V1.
+    unfold regs in G1. inversion G1 as [[G11 G12 G13]].
     (* value *)
-    destruct (Hv c1 false) as [c2 [S2 V2]].
-    { rewrite E5. exact Wv. } { rewrite E1. reflexivity. } { rewrite E1. cbn. discriminate. }
+    destruct (Hv c1 false mk fw mk1 fw1) as [c2 [S2 [V2 [Rg2 Rc2]]]].
+    { rewrite E5. exact Wv. } { rewrite E1. reflexivity. } { rewrite E1. cbn. discriminate. } { rewrite E1. cbn. discriminate. }
     { unfold room. rewrite E1. cbn. rewrite X. exact I. } { rewrite E4. lia. }
     { rewrite E3. fold (list_max (map (fun en => let '(_, _, v) := en in height v) entries)) in D. lia. }
-    unfold view in V2. inversion V2 as [[F1 F2 F3 F4 F5 F6]]. clear V2.
+    { eapply Reg_regs; [exact G1 | exact Rg]. } { exact R1. } { rewrite G13. lia. }
+    unfold core in V2. inversion V2 as [[F1 F2 F3 F4 F5]]. clear V2.
     (* the rest *)
-    destruct (IH c2) as [c3 [S3 U3]].
+    destruct (IH c2 mk1 fw1 mk' fw') as [c3 [S3 [U3 [Rg3 Rc3]]]]; try assumption.
     + rewrite F1, E1. reflexivity.
     + rewrite F1, E1. cbn. exact X.
     + rewrite F5, E5. exact W2.
-    + exact Dk2.
     + intros tv' k' v' nk' I' NK'. rewrite F1, E1. cbn [adv_entry with_rule bump keyed e_keys existsb].
       apply orb_false_iff. split.
       * rewrite nkey_eqb_sym. clear -Dk1 I' NK'.
@@ -557,16 +1010,17 @@ Proof.
       * eapply Fr; [right; exact I' | exact NK'].
     + rewrite F4, E4. lia.
     + rewrite F3, E3. fold (list_max (map (fun en => let '(_, _, v) := en in height v) entries)) in D. lia.
-    + exists c3. split.
-      * rewrite steps_app, S2. exact S3.
-      * unfold map_upto in *. destruct U3 as [U1 [U2 [U3 [U4 [U5 [U6 [U7 U8]]]]]]]. 
-        rewrite object_usage_app, object_usage_trivia, object_usage_cons, object_usage_app, (key_event_object _ _ K).
-        rewrite F1, E1 in U7, U8. cbn in U7, U8.
-        repeat split; try congruence. rewrite U3, F4, E4. lia.
+    + rewrite Rc2, G13. lia.
+    + exists c3. split; [rewrite steps_app, S2; exact S3|].
+      unfold map_upto in *. destruct U3 as [U1 [U2 [U3 [U4 [U6 [U7 U8]]]]]].
+      rewrite object_usage_app, object_usage_trivia, object_usage_cons, object_usage_app, Ko.
+      rewrite marker_usage_app, marker_usage_trivia, marker_usage_cons, marker_usage_app, Km.
+      rewrite F1, E1 in U7, U8. cbn in U7, U8.
+      split; [repeat split; try congruence; rewrite U3, F4, E4; lia|]. split; [exact Rg3 | rewrite Rc3, Rc2, G13; lia].
 Qed.
 
-Lemma leaf_counts cfg e : leaf_ok cfg e = true -> counts_object e = true.
-Proof. destruct e; cbn; try discriminate; reflexivity. Qed.
+Lemma leaf_counts cfg e : leaf_ok cfg e = true -> counts_object e = true /\ is_marker e = false.
+Proof. destruct e; cbn; try discriminate; auto. Qed.
 
 Lemma value_rule_trivia r : is_value_rule r = true -> trivia_rule r = true.
 Proof. unfold trivia_rule. intros ->. reflexivity. Qed.
@@ -579,11 +1033,28 @@ Lemma finish_container cfg c c2 close :
   match e_expected (cur c2) with Some x => e_count (cur c2) = x | None => True end ->
   (e_dtype (cur c2) =? DT_RecordType) = false ->
   exists c3, steps cfg c2 (map trivia_event close ++ [EEnd]) = Some c3 /\
-             view c3 = (adv_entry (cur c), stack c, depth c, objects c2, rectypes c2, fwd c2).
+             core c3 = (adv_entry (cur c), stack c, depth c, objects c2, rectypes c2) /\ regs c3 = regs c2.
 Proof.
   intros V S D Cl Tr X T. rewrite steps_app, steps_trivia by exact Tr.
   destruct (step_end cfg c2 (bump (cur c)) (stack c) (e_rule (cur c)) Cl S eq_refl V) as [c3 [S3 V3]]; try assumption; [lia|].
-  exists c3. cbn [steps]. rewrite S3. split; [reflexivity|]. rewrite V3. unfold adv_entry. repeat f_equal. lia.
+  exists c3. cbn [steps]. rewrite S3. split; [reflexivity|]. apply view_core in V3 as [V3 G3]. split; [|exact G3].
+  rewrite V3. unfold adv_entry. repeat f_equal. lia.
+Qed.
+
+Lemma finish_marked cfg c2 me id p st close mk fw :
+  stack c2 = me :: p :: st -> is_marker_entry me id -> is_value_rule (e_rule p) = true -> depth c2 <> 0 ->
+  closable (e_rule (cur c2)) = true -> trivia_rule (e_rule (cur c2)) = true ->
+  match e_expected (cur c2) with Some x => e_count (cur c2) = x | None => True end ->
+  (e_dtype (cur c2) =? DT_RecordType) = false -> N.land (e_dtype (cur c2)) Allow_Any <> 0 ->
+  Reg c2 mk fw -> id_mem id mk = false -> refcount c2 + 1 <= max_local_reference_count cfg ->
+  exists c3, steps cfg c2 (map trivia_event close ++ [EEnd]) = Some c3 /\
+             core c3 = (with_rule p (next_rule (e_rule p)), st, depth c2 - 1, objects c2, rectypes c2) /\
+             Reg c3 (id :: mk) (id_remove id fw) /\ refcount c3 = refcount c2 + 1.
+Proof.
+  intros S M V D Cl Tr X T Dt Rg Nm Rc. rewrite steps_app, steps_trivia by exact Tr.
+  destruct (step_end_marked cfg c2 me id p st (e_rule p) mk fw Cl S M eq_refl V D X T Dt Rg Nm Rc)
+    as [c3 [S3 [H1 [H2 [H3 [H4 [H5 [H6 H7]]]]]]]].
+  exists c3. cbn [steps]. rewrite S3. split; [reflexivity|]. unfold core. rewrite H1, H2, H3, H4, H5. auto.
 Qed.
 
 Lemma dtypes_not_rectype :
@@ -591,154 +1062,231 @@ Lemma dtypes_not_rectype :
   (DT_Record =? DT_RecordType) = false.
 Proof. vm_compute. repeat split; reflexivity. Qed.
 
-Theorem value_complete cfg : forall v, val_complete cfg v.
+(* A container in both positions: the begin event, the body, the closing trivia and the end event. *)
+Lemma container_modes cfg v be rc dt exp body close hb :
+  flatten v = be :: body ++ map trivia_event close ++ [EEnd] ->
+  counts_object be = true -> is_marker be = false -> height v = 1 + hb -> markable v = true ->
+  (dt =? DT_RecordType) = false -> N.land dt Allow_Any <> 0 ->
+  (forall c nnull, wf_val cfg (rectypes c) nnull v = true -> is_value_rule (e_rule (cur c)) = true -> room (cur c) ->
+     objects c + 1 <= max_object_count cfg -> depth c + 1 <= max_container_depth cfg ->
+     exists c1, rstep cfg c be = Some (c1, [be]) /\
+                view c1 = (mk_entry rc dt exp, bump (cur c) :: stack c, depth c + 1, objects c + 1, rectypes c, regs c)) ->
+  (forall c nnull id p st, wf_val cfg (rectypes c) nnull v = true -> is_marker_entry (cur c) id -> stack c = p :: st ->
+     is_value_rule (e_rule p) = true ->
+     objects c + 1 <= max_object_count cfg -> depth c + 1 <= max_container_depth cfg ->
+     exists c1, rstep cfg c be = Some (c1, [be]) /\
+                view c1 = (mk_entry rc dt exp, bump (cur c) :: stack c, depth c + 1, objects c + 1, rectypes c, regs c)) ->
+  (forall c1 nnull mk fw mk' fw', wf_val cfg (rectypes c1) nnull v = true -> cur c1 = mk_entry rc dt exp ->
+     objects c1 + object_usage body <= max_object_count cfg -> depth c1 + hb <= max_container_depth cfg ->
+     Reg c1 mk fw -> reg_val v (mk, fw) = Some (mk', fw') ->
+     refcount c1 + marker_usage body <= max_local_reference_count cfg ->
+     exists c2, steps cfg c1 body = Some c2 /\ stack c2 = stack c1 /\ depth c2 = depth c1 /\
+                objects c2 = objects c1 + object_usage body /\ rectypes c2 = rectypes c1 /\
+                closable (e_rule (cur c2)) = true /\ trivia_rule (e_rule (cur c2)) = true /\
+                match e_expected (cur c2) with Some x => e_count (cur c2) = x | None => True end /\
+                e_dtype (cur c2) = dt /\ Reg c2 mk' fw' /\ refcount c2 = refcount c1 + marker_usage body) ->
+  val_complete cfg v /\ marked_complete cfg v.
 Proof.
-  apply val_ind'; unfold val_complete.
-  - (* leaf *)
-    intros e c nnull W V NN Rm O D. cbn [wf_val flatten] in *. apply andb_true_iff in W as [L Nl].
-    unfold object_usage in O |- *. cbn [count_if] in O |- *. rewrite (leaf_counts _ _ L) in O |- *. cbv iota in O |- *.
-    destruct (step_leaf cfg c e _ eq_refl V L) as [c' [S V']]; try assumption.
-    + intro NA. rewrite (NN NA) in Nl. cbn in Nl. apply negb_true_iff in Nl. exact Nl.
-    + exists c'. cbn [steps]. rewrite S. split; [reflexivity|]. rewrite V'. repeat f_equal; lia.
-  - (* trivia *)
-    intros t v IH c nnull W V NN Rm O D. cbn [wf_val flatten height] in *.
-    rewrite object_usage_cons in O |- *. assert (counts_object (trivia_event t) = false) as Ct by (destruct t; reflexivity).
-    rewrite Ct in O |- *. cbn [steps]. rewrite step_trivia by (apply value_rule_trivia; exact V).
-    destruct (IH c nnull W V NN Rm) as [c' [S V']]; [lia | exact D |]. exists c'. split; [exact S|]. rewrite V'. repeat f_equal.
-  - (* list *)
-    intros items close IH c nnull W V NN Rm O D. cbn [wf_val flatten height] in *.
-    rewrite object_usage_cons, !object_usage_app, object_usage_trivia in O |- *. cbn [counts_object] in O |- *.
-    change (object_usage [EEnd]) with 0 in O |- *.
-    destruct (step_begin cfg c EList _ _ _ _ _ eq_refl eq_refl V Rm) as [c1 [S1 V1]]; [clear -O; lia | first [clear -D; lia | clear -D1; lia] |].
-    unfold view in V1. inversion V1 as [[E1 E2 E3 E4 E5 E6]]. clear V1.
-    assert (is_value_rule (e_rule (cur c1)) = true) as P1 by (rewrite E1; reflexivity).
-    assert (next_rule (e_rule (cur c1)) = e_rule (cur c1)) as P2 by (rewrite E1; reflexivity).
-    assert (null_allowed (e_rule (cur c1)) = true) as P3 by (rewrite E1; reflexivity).
-    assert (forallb (wf_val cfg (rectypes c1) false) items = true) as P4 by (rewrite E5; exact W).
-    assert (match e_expected (cur c1) with Some x => e_count (cur c1) + N.of_nat (length items) <= x | None => True end) as P5
-      by (rewrite E1; exact I).
-    destruct (items_complete cfg items IH c1 P1 P2 P3 P4 P5) as [c2 [S2 U2]]; [rewrite E4; clear -O; lia | rewrite E3; first [clear -D; lia | clear -D1; lia] |].
-    destruct U2 as [U1 [U2 [U3 [U4 [U5 [U6 [U7 [U8 [U9 U10]]]]]]]]].
-    assert (closable (e_rule (cur c2)) = true) as Q1 by (rewrite U6, E1; reflexivity).
-    assert (trivia_rule (e_rule (cur c2)) = true) as Q2 by (rewrite U6, E1; reflexivity).
-    assert (match e_expected (cur c2) with Some x => e_count (cur c2) = x | None => True end) as Q3 by (rewrite U9, E1; exact I).
-    assert ((e_dtype (cur c2) =? DT_RecordType) = false) as Q4 by (rewrite U7, E1; apply dtypes_not_rectype).
-    destruct (finish_container cfg c c2 close V) as [c3 [S3 V3]]; try assumption; try congruence.
-    exists c3. split; [cbn [steps]; rewrite S1, steps_app, S2; exact S3|]. rewrite V3, U4, E5, U5, E6, U3, E4. match goal with |- (_, _, _, ?o1, _, _) = (_, _, _, ?o2, _, _) => replace o1 with o2 by (clear; lia); reflexivity end.
-  - (* map *)
-    intros entries close IH c nnull W V NN Rm O D. cbn [wf_val flatten height] in *.
-    apply andb_true_iff in W as [W1 W2].
-    change (flat_map (fun en : list trivia * event * val => let '(tv, k, v) := en in map trivia_event tv ++ k :: flatten v) entries)
-      with (flat_map entry_events entries) in *.
-    rewrite object_usage_cons, !object_usage_app, object_usage_trivia in O |- *. cbn [counts_object] in O |- *.
-    change (object_usage [EEnd]) with 0 in O |- *.
-    destruct (step_begin cfg c EMap _ _ _ _ _ eq_refl eq_refl V Rm) as [c1 [S1 V1]]; [clear -O; lia | first [clear -D; lia | clear -D1; lia] |].
-    unfold view in V1. inversion V1 as [[E1 E2 E3 E4 E5 E6]]. clear V1.
-    assert (e_rule (cur c1) = RMapKey) as P1 by (rewrite E1; reflexivity).
-    assert (e_expected (cur c1) = None) as P2 by (rewrite E1; reflexivity).
-    assert (forallb (fun en => let '(_, k, v) := en in key_ok cfg k && wf_val cfg (rectypes c1) false v) entries = true) as P3
-      by (rewrite E5; exact W1).
-    assert (forall tv k v nk, In (tv, k, v) entries -> nkey_of k = Some nk -> existsb (nkey_eqb nk) (e_keys (cur c1)) = false) as P4
-      by (intros; rewrite E1; reflexivity).
-    destruct (entries_complete cfg entries IH c1 P1 P2 P3 W2 P4) as [c2 [S2 U2]]; [rewrite E4; clear -O; lia | rewrite E3; first [clear -D; lia | clear -D1; lia] |].
-    destruct U2 as [U1 [U2 [U3 [U4 [U5 [U6 [U7 U8]]]]]]].
-    assert (closable (e_rule (cur c2)) = true) as Q1 by (rewrite U6; reflexivity).
-    assert (trivia_rule (e_rule (cur c2)) = true) as Q2 by (rewrite U6; reflexivity).
-    assert (match e_expected (cur c2) with Some x => e_count (cur c2) = x | None => True end) as Q3 by (rewrite U8, E1; exact I).
-    assert ((e_dtype (cur c2) =? DT_RecordType) = false) as Q4 by (rewrite U7, E1; apply dtypes_not_rectype).
-    destruct (finish_container cfg c c2 close V) as [c3 [S3 V3]]; try assumption; try congruence.
-    exists c3. split; [cbn [steps]; rewrite S1, steps_app, S2; exact S3|]. rewrite V3, U4, E5, U5, E6, U3, E4. match goal with |- (_, _, _, ?o1, _, _) = (_, _, _, ?o2, _, _) => replace o1 with o2 by (clear; lia); reflexivity end.
-  - (* node *)
-    intros v items close IHv IH c nnull W V NN Rm O D. cbn [wf_val flatten height] in *.
-    apply andb_true_iff in W as [W1 W2].
-    rewrite object_usage_cons, !object_usage_app, object_usage_trivia in O |- *. cbn [counts_object] in O |- *.
-    change (object_usage [EEnd]) with 0 in O |- *.
-    assert (depth c + 1 + height v <= max_container_depth cfg /\
-            depth c + 1 + list_max (map height items) <= max_container_depth cfg) as [D1 D2] by (clear -D; lia).
-    clear D.
-    destruct (step_begin cfg c ENode _ _ _ _ _ eq_refl eq_refl V Rm) as [c1 [S1 V1]]; [clear -O; lia | first [clear -D; lia | clear -D1; lia] |].
-    unfold view in V1. inversion V1 as [[E1 E2 E3 E4 E5 E6]]. clear V1.
-    assert (wf_val cfg (rectypes c1) false v = true) as A1 by (rewrite E5; exact W1).
-    assert (is_value_rule (e_rule (cur c1)) = true) as A2 by (rewrite E1; reflexivity).
-    assert (null_allowed (e_rule (cur c1)) = false -> false = true) as A3 by (rewrite E1; cbn; discriminate).
-    assert (room (cur c1)) as A4 by (rewrite E1; exact I).
-    destruct (IHv c1 false A1 A2 A3 A4) as [c2 [S2 V2]]; [rewrite E4; clear -O; lia | rewrite E3; first [clear -D; lia | clear -D1; lia] |].
-    unfold view in V2. inversion V2 as [[F1 F2 F3 F4 F5 F6]]. clear V2.
-    assert (is_value_rule (e_rule (cur c2)) = true) as P1 by (rewrite F1, E1; reflexivity).
-    assert (next_rule (e_rule (cur c2)) = e_rule (cur c2)) as P2 by (rewrite F1, E1; reflexivity).
-    assert (null_allowed (e_rule (cur c2)) = true) as P3 by (rewrite F1, E1; reflexivity).
-    assert (forallb (wf_val cfg (rectypes c2) false) items = true) as P4 by (rewrite F5, E5; exact W2).
-    assert (match e_expected (cur c2) with Some x => e_count (cur c2) + N.of_nat (length items) <= x | None => True end) as P5
-      by (rewrite F1, E1; exact I).
-    destruct (items_complete cfg items IH c2 P1 P2 P3 P4 P5) as [c3 [S3 U3]]; [rewrite F4, E4; clear -O; lia | rewrite F3, E3; clear -D2; lia |].
-    destruct U3 as [U1 [U2 [U3 [U4 [U5 [U6 [U7 [U8 [U9 U10]]]]]]]]].
-    assert (closable (e_rule (cur c3)) = true) as Q1 by (rewrite U6, F1, E1; reflexivity).
-    assert (trivia_rule (e_rule (cur c3)) = true) as Q2 by (rewrite U6, F1, E1; reflexivity).
-    assert (match e_expected (cur c3) with Some x => e_count (cur c3) = x | None => True end) as Q3 by (rewrite U9, F1, E1; exact I).
-    assert ((e_dtype (cur c3) =? DT_RecordType) = false) as Q4 by (rewrite U7, F1, E1; apply dtypes_not_rectype).
-    destruct (finish_container cfg c c3 close V) as [c4 [S4 V4]]; try assumption; try congruence.
-    exists c4. split; [cbn [steps]; rewrite S1, steps_app, S2, steps_app, S3; exact S4|]. rewrite V4, U4, F5, E5, U5, F6, E6, U3, F4, E4. match goal with |- (_, _, _, ?o1, _, _) = (_, _, _, ?o2, _, _) => replace o1 with o2 by (clear; lia); reflexivity end.
-  - (* edge *)
-    intros s d t close IHs IHd IHt c nnull W V NN Rm O D. cbn [wf_val flatten height] in *.
-    apply andb_true_iff in W as [W W3]. apply andb_true_iff in W as [W1 W2].
-    rewrite object_usage_cons, !object_usage_app, object_usage_trivia in O |- *. cbn [counts_object] in O |- *.
-    change (object_usage [EEnd]) with 0 in O |- *.
-    assert (depth c + 1 + height s <= max_container_depth cfg /\ depth c + 1 + height d <= max_container_depth cfg /\
-            depth c + 1 + height t <= max_container_depth cfg) as [D1 [D2 D3]] by (clear -D; lia).
-    clear D.
-    destruct (step_begin cfg c EEdge _ _ _ _ _ eq_refl eq_refl V Rm) as [c1 [S1 V1]]; [clear -O; lia | first [clear -D; lia | clear -D1; lia] |].
-    unfold view in V1. inversion V1 as [[E1 E2 E3 E4 E5 E6]]. clear V1.
-    assert (wf_val cfg (rectypes c1) true s = true) as A1 by (rewrite E5; exact W1).
-    assert (is_value_rule (e_rule (cur c1)) = true) as A2 by (rewrite E1; reflexivity).
-    assert (null_allowed (e_rule (cur c1)) = false -> true = true) as A3 by reflexivity.
-    assert (room (cur c1)) as A4 by (unfold room; rewrite E1; cbn; clear; lia).
-    destruct (IHs c1 true A1 A2 A3 A4) as [c2 [S2 V2]]; [rewrite E4; clear -O; lia | rewrite E3; first [clear -D; lia | clear -D1; lia] |].
-    unfold view in V2. inversion V2 as [[F1 F2 F3 F4 F5 F6]]. clear V2.
-    assert (wf_val cfg (rectypes c2) false d = true) as B1 by (rewrite F5, E5; exact W2).
-    assert (is_value_rule (e_rule (cur c2)) = true) as B2 by (rewrite F1, E1; reflexivity).
-    assert (null_allowed (e_rule (cur c2)) = false -> false = true) as B3 by (rewrite F1, E1; cbn; discriminate).
-    assert (room (cur c2)) as B4 by (unfold room; rewrite F1, E1; cbn; clear; lia).
-    destruct (IHd c2 false B1 B2 B3 B4) as [c3 [S3 V3]]; [rewrite F4, E4; clear -O; lia | rewrite F3, E3; clear -D2; lia |].
-    unfold view in V3. inversion V3 as [[G1 G2 G3 G4 G5 G6]]. clear V3.
-    assert (wf_val cfg (rectypes c3) true t = true) as C1 by (rewrite G5, F5, E5; exact W3).
-    assert (is_value_rule (e_rule (cur c3)) = true) as C2 by (rewrite G1, F1, E1; reflexivity).
-    assert (null_allowed (e_rule (cur c3)) = false -> true = true) as C3 by reflexivity.
-    assert (room (cur c3)) as C4 by (unfold room; rewrite G1, F1, E1; cbn; clear; lia).
-    destruct (IHt c3 true C1 C2 C3 C4) as [c4 [S4 V4]]; [rewrite G4, F4, E4; clear -O; lia | rewrite G3, F3, E3; clear -D3; lia |].
-    unfold view in V4. inversion V4 as [[H1 H2 H3 H4 H5 H6]]. clear V4.
-    assert (closable (e_rule (cur c4)) = true) as Q1 by (rewrite H1, G1, F1, E1; reflexivity).
-    assert (trivia_rule (e_rule (cur c4)) = true) as Q2 by (rewrite H1, G1, F1, E1; reflexivity).
-    assert (match e_expected (cur c4) with Some x => e_count (cur c4) = x | None => True end) as Q3
-      by (rewrite H1, G1, F1, E1; reflexivity).
-    assert ((e_dtype (cur c4) =? DT_RecordType) = false) as Q4 by (rewrite H1, G1, F1, E1; apply dtypes_not_rectype).
-    destruct (finish_container cfg c c4 close V) as [c5 [S5 V5]]; try assumption; try congruence.
-    exists c5. split; [cbn [steps]; rewrite S1, steps_app, S2, steps_app, S3, steps_app, S4; exact S5|].
-    rewrite V5, H5, G5, F5, E5, H6, G6, F6, E6, H4, G4, F4, E4. match goal with |- (_, _, _, ?o1, _, _) = (_, _, _, ?o2, _, _) => replace o1 with o2 by (clear; lia); reflexivity end.
-  - (* record *)
-    intros id fields close IH c nnull W V NN Rm O D. cbn [wf_val flatten height] in *.
-    apply andb_true_iff in W as [W W3]. apply andb_true_iff in W as [W1 W2].
-    destruct (alookup id (rectypes c)) as [n|] eqn:A; [|discriminate]. apply N.eqb_eq in W2.
-    rewrite object_usage_cons, !object_usage_app, object_usage_trivia in O |- *. cbn [counts_object] in O |- *.
-    change (object_usage [EEnd]) with 0 in O |- *.
-    destruct (step_begin_record cfg c id _ n eq_refl V W1 A Rm) as [c1 [S1 V1]]; [clear -O; lia | clear -D; lia |].
-    unfold view in V1. inversion V1 as [[E1 E2 E3 E4 E5 E6]]. clear V1.
-    assert (is_value_rule (e_rule (cur c1)) = true) as P1 by (rewrite E1; reflexivity).
-    assert (next_rule (e_rule (cur c1)) = e_rule (cur c1)) as P2 by (rewrite E1; reflexivity).
-    assert (null_allowed (e_rule (cur c1)) = true) as P3 by (rewrite E1; reflexivity).
-    assert (forallb (wf_val cfg (rectypes c1) false) fields = true) as P4 by (rewrite E5; exact W3).
-    assert (match e_expected (cur c1) with Some x => e_count (cur c1) + N.of_nat (length fields) <= x | None => True end) as P5
-      by (rewrite E1; cbn; clear -W2; lia).
-    destruct (items_complete cfg fields IH c1 P1 P2 P3 P4 P5) as [c2 [S2 U2]]; [rewrite E4; clear -O; lia | rewrite E3; clear -D; lia |].
-    destruct U2 as [U1 [U2 [U3 [U4 [U5 [U6 [U7 [U8 [U9 U10]]]]]]]]].
-    assert (closable (e_rule (cur c2)) = true) as Q1 by (rewrite U6, E1; reflexivity).
-    assert (trivia_rule (e_rule (cur c2)) = true) as Q2 by (rewrite U6, E1; reflexivity).
-    assert (match e_expected (cur c2) with Some x => e_count (cur c2) = x | None => True end) as Q3
-      by (rewrite U9, U8, E1; cbn; clear -W2; lia).
-    assert ((e_dtype (cur c2) =? DT_RecordType) = false) as Q4 by (rewrite U7, E1; apply dtypes_not_rectype).
-    destruct (finish_container cfg c c2 close V) as [c3 [S3 V3]]; try assumption; try congruence.
-    exists c3. split; [cbn [steps]; rewrite S1, steps_app, S2; exact S3|]. rewrite V3, U4, E5, U5, E6, U3, E4. match goal with |- (_, _, _, ?o1, _, _) = (_, _, _, ?o2, _, _) => replace o1 with o2 by (clear; lia); reflexivity end.
+  intros Fl Co Nm Hh Mk Dr Da BeginD BeginM Body.
+  assert (object_usage (flatten v) = 1 + object_usage body) as OU.
+  { rewrite Fl, object_usage_cons, Co, !object_usage_app, object_usage_trivia. change (object_usage [EEnd]) with 0. lia. }
+  assert (marker_usage (flatten v) = marker_usage body) as MU.
+  { rewrite Fl, marker_usage_cons, Nm, !marker_usage_app, marker_usage_trivia. change (marker_usage [EEnd]) with 0. lia. }
+  split.
+  - intros c nnull mk fw mk' fw' W V NN TO Rm O D Rg Rl Rc. rewrite OU in *. rewrite MU in *. rewrite Hh in D. rewrite Fl.
+    destruct (BeginD c nnull W V Rm) as [c1 [S1 V1]]; [clear -O; lia | clear -D; lia |].
+    apply view_core in V1 as [V1 G1]. unfold core in V1. inversion V1 as [[E1 E2 E3 E4 E5]]. clear V1.
+    pose proof G1 as G1'. unfold regs in G1'. inversion G1' as [[G11 G12 G13]].
+    destruct (Body c1 nnull mk fw mk' fw') as [c2 [S2 [B1 [B2 [B3 [B4 [B5 [B6 [B7 [B8 [B9 B10]]]]]]]]]]]; try assumption.
+    { rewrite E5. exact W. } { rewrite E4. clear -O. lia. } { rewrite E3. clear -D. lia. }
+    { eapply Reg_regs; [exact G1 | exact Rg]. } { rewrite G13. exact Rc. }
+    destruct (finish_container cfg c c2 close V) as [c3 [S3 [V3 G3]]]; try assumption; try congruence.
+    exists c3. split; [cbn [steps]; rewrite S1, steps_app, S2; exact S3|].
+    unfold regs in G3. inversion G3 as [[G31 G32 G33]].
+    split; [rewrite V3, B3, E4, B4, E5; match goal with |- (_, _, ?d1, ?o1, _) = (_, _, ?d2, ?o2, _) => replace o1 with o2 by (clear; lia); replace d1 with d2 by (clear; lia); reflexivity end|].
+    split; [eapply Reg_regs; [exact G3 | exact B9] | rewrite G33, B10, G13; reflexivity].
+  - intros c id p st nnull mk fw mk' fw' _ W M S V Mi NN O D Rg Rl Ni Rc. rewrite OU in *. rewrite MU in *. rewrite Hh in D. rewrite Fl.
+    destruct (BeginM c nnull id p st W M S V) as [c1 [S1 V1]]; [clear -O; lia | clear -D; lia |].
+    apply view_core in V1 as [V1 G1]. unfold core in V1. inversion V1 as [[E1 E2 E3 E4 E5]]. clear V1.
+    pose proof G1 as G1'. unfold regs in G1'. inversion G1' as [[G11 G12 G13]].
+    destruct (Body c1 nnull mk fw mk' fw') as [c2 [S2 [B1 [B2 [B3 [B4 [B5 [B6 [B7 [B8 [B9 B10]]]]]]]]]]]; try assumption.
+    { rewrite E5. exact W. } { rewrite E4. clear -O. lia. } { rewrite E3. clear -D. lia. }
+    { eapply Reg_regs; [exact G1 | exact Rg]. } { rewrite G13. clear -Rc. lia. }
+    destruct (finish_marked cfg c2 (bump (cur c)) id p st close mk' fw') as [c3 [S3 [V3 [Rg3 Rc3]]]]; try assumption.
+    { rewrite B1, E2, S. reflexivity. }
+    { rewrite B2, E3. clear. lia. } { rewrite B8. exact Dr. } { rewrite B8. exact Da. }
+    { rewrite B10, G13. clear -Rc. lia. }
+    exists c3. split; [cbn [steps]; rewrite S1, steps_app, S2; exact S3|].
+    split; [rewrite V3, B2, E3, B3, E4, B4, E5; match goal with |- (_, _, ?d1, ?o1, _) = (_, _, ?d2, ?o2, _) => replace o1 with o2 by (clear; lia); replace d1 with d2 by (clear; lia); reflexivity end|].
+    split; [exact Rg3 | rewrite Rc3, B10, G13; clear; lia].
 Qed.
 
+Lemma Forall_fst {A} (P Q : A -> Prop) l : Forall (fun x => P x /\ Q x) l -> Forall P l.
+Proof. apply Forall_impl. tauto. Qed.
+
+Lemma any_container_dtypes :
+  N.land DT_List Allow_Any <> 0 /\ N.land DT_Map Allow_Any <> 0 /\ N.land DT_Edge Allow_Any <> 0 /\ N.land DT_Record Allow_Any <> 0.
+Proof. destruct any_dtypes as [A1 [A2 [A3 [A4 _]]]]. auto. Qed.
+
+Ltac side E :=
+  first [ assumption | rewrite E; reflexivity | rewrite E; cbn; discriminate | rewrite E; exact I
+        | unfold room; rewrite E; cbn; first [exact I | clear; lia] | rewrite E; cbn; clear; lia
+        | intros; rewrite E; reflexivity ].
+
+Theorem value_complete cfg : forall v, val_complete cfg v /\ marked_complete cfg v.
+Proof.
+  apply val_ind'.
+  - (* leaf *)
+    intro e. split.
+    + intros c nnull mk fw mk' fw' W V NN TO Rm O D Rg Rl Rc. cbn [wf_val flatten reg_val] in *. inv_some.
+      apply andb_true_iff in W as [L Nl]. destruct (leaf_counts _ _ L) as [Lc Lm].
+      rewrite object_usage_cons, Lc in O |- *. rewrite marker_usage_cons, Lm in Rc |- *.
+      change (object_usage []) with 0 in *. change (marker_usage []) with 0 in *.
+      change (if true then 1 else 0) with 1 in *. change (if false then 1 else 0) with 0 in *.
+      destruct (step_leaf cfg c e _ eq_refl V L) as [c' [S V']]; try assumption; try (clear -O; lia).
+      * intro NA. rewrite (NN NA) in Nl. cbn in Nl. apply negb_true_iff in Nl. exact Nl.
+      * apply view_core in V' as [V' G']. unfold regs in G'. inversion G' as [[G1 G2 G3]].
+        exists c'. cbn [steps]. rewrite S. split; [reflexivity|]. split; [rewrite V'; repeat f_equal; clear; lia|].
+        split; [eapply Reg_regs; [exact G' | exact Rg] | rewrite G3; clear; lia].
+    + intros c id p st nnull mk fw mk' fw' Mk W M S V Mi NN O D Rg Rl Ni Rc. cbn [wf_val flatten reg_val] in *. injection Rl as <- <-.
+      apply andb_true_iff in W as [L Nl]. destruct (leaf_counts _ _ L) as [Lc Lm].
+      rewrite object_usage_cons, Lc in O |- *. rewrite marker_usage_cons, Lm in Rc |- *.
+      change (object_usage []) with 0 in *. change (marker_usage []) with 0 in *.
+      change (if true then 1 else 0) with 1 in *. change (if false then 1 else 0) with 0 in *.
+      destruct (step_marked_leaf cfg c e id p st (e_rule p) mk fw M S eq_refl V Mi L Mk) as [c' [S' [H1 [H2 [H3 [H4 [H5 [H6 H7]]]]]]]];
+        try assumption; try (clear -O; lia); try (clear -Rc; lia).
+      * intro NA. rewrite (NN NA) in Nl. cbn in Nl. apply negb_true_iff in Nl. exact Nl.
+      * exists c'. cbn [steps]. rewrite S'. split; [reflexivity|]. split; [unfold core; rewrite H1, H2, H3, H4, H5; repeat f_equal; clear; lia|].
+        split; [exact H7 | rewrite H6; clear; lia].
+  - (* trivia *)
+    intros t v [IH _]. split; [|intros c id p st nnull mk fw mk' fw' Mk; discriminate Mk].
+    intros c nnull mk fw mk' fw' W V NN TO Rm O D Rg Rl Rc. cbn [wf_val flatten height reg_val top_ok] in *.
+    assert (counts_object (trivia_event t) = false /\ is_marker (trivia_event t) = false) as [Ct Mt] by (destruct t; split; reflexivity).
+    rewrite object_usage_cons, Ct in O |- *. rewrite marker_usage_cons, Mt in Rc |- *.
+    change (if false then 1 else 0) with 0 in *.
+    cbn [steps]. rewrite step_trivia by (apply value_rule_trivia; exact V).
+    destruct (IH c nnull mk fw mk' fw' W V NN TO Rm) as [c' [S [V' [Rg' Rc']]]]; try assumption; try (clear -O; lia); try (clear -Rc; lia).
+    exists c'. split; [exact S|]. split; [rewrite V'; repeat f_equal|]. split; [exact Rg' | rewrite Rc'; clear; lia].
+  - (* list *)
+    intros items close IH. apply Forall_fst in IH.
+    apply (container_modes cfg _ EList RList DT_List None (flat_map flatten items) close (list_max (map height items)));
+      try reflexivity; try apply dtypes_not_rectype; try apply any_container_dtypes.
+    + intros c nnull W V Rm O D. eapply step_begin; eauto. reflexivity.
+    + intros c nnull id p st W M S V O D. eapply step_marked_begin; eauto. reflexivity.
+    + intros c1 nnull mk fw mk' fw' W E O D Rg Rl Rc. cbn [wf_val] in W. rewrite reg_val_list in Rl.
+      destruct (items_complete cfg items IH c1 mk fw mk' fw') as [c2 [S2 [[U1 [U2 [U3 [U4 [U5 [U6 [U7 [U8 U9]]]]]]]] [Rg2 Rc2]]]];
+        try solve [side E].
+      exists c2. split; [exact S2|]. repeat (split; [first [assumption | rewrite U5, E; reflexivity | rewrite U8, E; exact I | rewrite U6, E; reflexivity]|]). exact Rc2.
+  - (* map *)
+    intros entries close IH. assert (Forall (fun en => val_complete cfg (snd en)) entries) as IH' by (revert IH; apply Forall_impl; tauto).
+    apply (container_modes cfg _ EMap RMapKey DT_Map None (flat_map entry_events entries) close
+             (list_max (map (fun en => let '(_, _, v) := en in height v) entries)));
+      try reflexivity; try apply dtypes_not_rectype; try apply any_container_dtypes.
+    + intros c nnull W V Rm O D. eapply step_begin; eauto. reflexivity.
+    + intros c nnull id p st W M S V O D. eapply step_marked_begin; eauto. reflexivity.
+    + intros c1 nnull mk fw mk' fw' W E O D Rg Rl Rc. cbn [wf_val] in W. apply andb_true_iff in W as [W1 W2]. rewrite reg_val_map in Rl.
+      destruct (entries_complete cfg entries IH' c1 mk fw mk' fw') as [c2 [S2 [[U1 [U2 [U3 [U4 [U5 [U6 U7]]]]]] [Rg2 Rc2]]]];
+        try solve [side E].
+      exists c2. split; [exact S2|]. repeat (split; [first [assumption | rewrite U5; reflexivity | rewrite U7, E; exact I | rewrite U6, E; reflexivity]|]). exact Rc2.
+  - (* node *)
+    intros v items close [IHv _] IH. apply Forall_fst in IH.
+    apply (container_modes cfg _ ENode RNode DT_List None (flatten v ++ flat_map flatten items) close
+             (N.max (height v) (list_max (map height items))));
+      try reflexivity; try apply dtypes_not_rectype; try apply any_container_dtypes.
+    + cbn [flatten]. rewrite <- app_assoc. reflexivity.
+    + intros c nnull W V Rm O D. eapply step_begin; eauto. reflexivity.
+    + intros c nnull id p st W M S V O D. eapply step_marked_begin; eauto. reflexivity.
+    + intros c1 nnull mk fw mk' fw' W E O D Rg Rl Rc. cbn [wf_val] in W. apply andb_true_iff in W as [W1 W2]. rewrite reg_val_node in Rl.
+      destruct (reg_val v (mk, fw)) as [[mk1 fw1]|] eqn:R1; [|discriminate].
+      rewrite object_usage_app in O |- *. rewrite marker_usage_app in Rc |- *.
+      assert (depth c1 + height v <= max_container_depth cfg /\ depth c1 + list_max (map height items) <= max_container_depth cfg) as [D1 D2]
+        by (clear -D; lia). clear D.
+      destruct (IHv c1 false mk fw mk1 fw1 W1) as [c2 [S2 [V2 [Rg2 Rc2]]]]; try solve [side E]; try solve [clear -O; lia]; try solve [clear -Rc; lia].
+      unfold core in V2. inversion V2 as [[F1 F2 F3 F4 F5]]. clear V2.
+      assert (cur c2 = adv_entry (mk_entry RNode DT_List None)) as F1' by (rewrite F1, E; reflexivity).
+      destruct (items_complete cfg items IH c2 mk1 fw1 mk' fw') as [c3 [S3 [[U1 [U2 [U3 [U4 [U5 [U6 [U7 [U8 U9]]]]]]]] [Rg3 Rc3]]]];
+        try solve [side F1']; try solve [rewrite F5; exact W2]; try solve [rewrite F1, E; exact I];
+        try solve [rewrite F4; clear -O; lia]; try solve [rewrite F3; exact D2]; try solve [rewrite Rc2; clear -Rc; lia].
+      exists c3. split; [rewrite steps_app, S2; exact S3|].
+      split; [congruence|]. split; [congruence|]. split; [rewrite U3, F4; clear; lia|]. split; [congruence|].
+      split; [rewrite U5, F1, E; reflexivity|]. split; [rewrite U5, F1, E; reflexivity|]. split; [rewrite U8, F1, E; exact I|].
+      split; [rewrite U6, F1, E; reflexivity|]. split; [exact Rg3 | rewrite Rc3, Rc2; clear; lia].
+  - (* edge *)
+    intros s d t close [IHs _] [IHd _] [IHt _].
+    apply (container_modes cfg _ EEdge REdgeSource DT_Edge (Some 3) (flatten s ++ flatten d ++ flatten t) close
+             (N.max (height s) (N.max (height d) (height t))));
+      try reflexivity; try apply dtypes_not_rectype; try apply any_container_dtypes.
+    + cbn [flatten]. rewrite <- !app_assoc. reflexivity.
+    + intros c nnull W V Rm O D. eapply step_begin; eauto. reflexivity.
+    + intros c nnull id p st W M S V O D. eapply step_marked_begin; eauto. reflexivity.
+    + intros c1 nnull mk fw mk' fw' W E O D Rg Rl Rc. cbn [wf_val reg_val] in W, Rl.
+      apply andb_true_iff in W as [W W3]. apply andb_true_iff in W as [W1 W2].
+      destruct (reg_val s (mk, fw)) as [[mk1 fw1]|] eqn:R1; [|discriminate].
+      destruct (reg_val d (mk1, fw1)) as [[mk2 fw2]|] eqn:R2; [|discriminate].
+      rewrite !object_usage_app in O |- *. rewrite !marker_usage_app in Rc |- *.
+      assert (depth c1 + height s <= max_container_depth cfg /\ depth c1 + height d <= max_container_depth cfg /\
+              depth c1 + height t <= max_container_depth cfg) as [D1 [D2 D3]] by (clear -D; lia). clear D.
+      destruct (IHs c1 true mk fw mk1 fw1 W1) as [c2 [S2 [V2 [Rg2 Rc2]]]]; try solve [side E]; try solve [clear -O; lia]; try solve [clear -Rc; lia].
+      unfold core in V2. inversion V2 as [[F1 F2 F3 F4 F5]]. clear V2.
+      assert (cur c2 = adv_entry (mk_entry REdgeSource DT_Edge (Some 3))) as F1' by (rewrite F1, E; reflexivity).
+      destruct (IHd c2 false mk1 fw1 mk2 fw2) as [c3 [S3 [V3 [Rg3 Rc3]]]]; try solve [side F1']; try solve [rewrite F5; exact W2];
+        try solve [rewrite F4; clear -O; lia]; try solve [rewrite F3; exact D2]; try solve [rewrite Rc2; clear -Rc; lia].
+      unfold core in V3. inversion V3 as [[G1 G2 G3 G4 G5]]. clear V3.
+      assert (cur c3 = adv_entry (adv_entry (mk_entry REdgeSource DT_Edge (Some 3)))) as G1' by (rewrite G1, F1, E; reflexivity).
+      destruct (IHt c3 true mk2 fw2 mk' fw') as [c4 [S4 [V4 [Rg4 Rc4]]]]; try solve [side G1']; try solve [rewrite G5, F5; exact W3];
+        try solve [rewrite G4, F4; clear -O; lia]; try solve [rewrite G3, F3; exact D3]; try solve [rewrite Rc3, Rc2; clear -Rc; lia].
+      unfold core in V4. inversion V4 as [[H1 H2 H3 H4 H5]]. clear V4.
+      exists c4. split; [rewrite steps_app, S2, steps_app, S3; exact S4|].
+      split; [congruence|]. split; [congruence|]. split; [rewrite H4, G4, F4; clear; lia|]. split; [congruence|].
+      split; [rewrite H1, G1, F1, E; reflexivity|]. split; [rewrite H1, G1, F1, E; reflexivity|]. split; [rewrite H1, G1, F1, E; reflexivity|].
+      split; [rewrite H1, G1, F1, E; reflexivity|]. split; [exact Rg4 | rewrite Rc4, Rc3, Rc2; clear; lia].
+  - (* record *)
+    intros id fields close IH. apply Forall_fst in IH.
+    apply (container_modes cfg _ (ERecord id) RRecord DT_Record (Some (N.of_nat (length fields))) (flat_map flatten fields) close
+             (list_max (map height fields)));
+      try reflexivity; try apply dtypes_not_rectype; try apply any_container_dtypes.
+    + intros c nnull W V Rm O D. cbn [wf_val] in W. apply andb_true_iff in W as [W W3]. apply andb_true_iff in W as [W1 W2].
+      destruct (alookup id (rectypes c)) as [n|] eqn:A; [|discriminate]. apply N.eqb_eq in W2. rewrite W2.
+      eapply step_begin_record; eauto.
+    + intros c nnull mid p st W M S V O D. cbn [wf_val] in W. apply andb_true_iff in W as [W W3]. apply andb_true_iff in W as [W1 W2].
+      destruct (alookup id (rectypes c)) as [n|] eqn:A; [|discriminate]. apply N.eqb_eq in W2. rewrite W2.
+      eapply step_marked_begin_record; eauto.
+    + intros c1 nnull mk fw mk' fw' W E O D Rg Rl Rc. cbn [wf_val] in W. apply andb_true_iff in W as [W W3]. rewrite reg_val_record in Rl.
+      destruct (items_complete cfg fields IH c1 mk fw mk' fw') as [c2 [S2 [[U1 [U2 [U3 [U4 [U5 [U6 [U7 [U8 U9]]]]]]]] [Rg2 Rc2]]]];
+        try solve [side E].
+      exists c2. split; [exact S2|].
+      repeat (split; [first [assumption | rewrite U5, E; reflexivity | rewrite U6, E; reflexivity | rewrite U8, U7, E; cbn; clear; lia]|]). exact Rc2.
+  - (* marker *)
+    intros id n v [_ IH]. split; [|intros c mid p st nnull mk fw mk' fw' Mk; discriminate Mk].
+    intros c nnull mk fw mk' fw' W V NN TO Rm O D Rg Rl Rc. cbn [wf_val flatten height reg_val] in *.
+    apply andb_true_iff in W as [W W3]. apply andb_true_iff in W as [W1 W2].
+    destruct (reg_val v (mk, fw)) as [[mk1 fw1]|] eqn:R1; [|discriminate].
+    destruct (id_mem id mk1) eqn:Mm; [discriminate|]. inv_some.
+    destruct (usage_pads n) as [Po Pm].
+    rewrite object_usage_cons, object_usage_app, Po in O |- *. rewrite marker_usage_cons, marker_usage_app, Pm in Rc |- *.
+    cbn [counts_object is_marker] in O, Rc |- *. change (if true then 1 else 0) with 1 in *.
+    destruct (step_marker cfg c id _ eq_refl V W1 Rm) as [c1 [S1 [M1 [E2 [E3 [E4 [E5 [G1 Mi]]]]]]]]; [clear -O; lia|].
+    pose proof G1 as G1'. unfold regs in G1'. inversion G1' as [[G11 G12 G13]].
+    destruct (IH c1 id (bump (cur c)) (stack c) nnull mk fw mk1 fw1 W2) as [c2 [S2 [V2 [Rg2 Rc2]]]]; try assumption.
+    { rewrite E5. exact W3. } { rewrite E4. clear -O. lia. } { rewrite E3. exact D. }
+    { eapply Reg_regs; [exact G1 | exact Rg]. } { rewrite G13. clear -Rc. lia. }
+    exists c2. split; [cbn [steps]; rewrite S1, steps_app, (steps_marker_pads cfg c1 id n M1); exact S2|].
+    split; [rewrite V2, E3, E4, E5; unfold adv_entry; cbn [bump e_rule];
+            match goal with |- (_, _, _, ?o1, _) = (_, _, _, ?o2, _) => replace o1 with o2 by (clear; lia); reflexivity end|].
+    split; [exact Rg2 | rewrite Rc2, G13; clear; lia].
+  - (* reference *)
+    intro id. split; [|intros c mid p st nnull mk fw mk' fw' Mk; discriminate Mk].
+    intros c nnull mk fw mk' fw' W V NN TO Rm O D Rg Rl Rc. cbn [wf_val flatten height reg_val top_ok] in *.
+    rewrite object_usage_cons in O |- *. rewrite marker_usage_cons in Rc |- *. cbn [counts_object is_marker] in O, Rc |- *.
+    change (object_usage []) with 0 in *. change (marker_usage []) with 0 in *.
+    change (if true then 1 else 0) with 1 in *. change (if false then 1 else 0) with 0 in *.
+    destruct (step_ref cfg c id _ mk fw eq_refl V) as [c' [S [H1 [H2 [H3 [H4 [H5 [H6 H7]]]]]]]]; try assumption.
+    { intro X. specialize (TO X). discriminate TO. }
+    exists c'. cbn [steps]. rewrite S. split; [reflexivity|].
+    split; [unfold core; rewrite H1, H2, H3, H4, H5; repeat f_equal; clear; lia|].
+    split; [|rewrite H6; clear; lia].
+    destruct (id_mem id mk || id_mem id fw); inv_some; exact H7.
+Qed.
 (* ------------------------------------------------------------------------- *)
 (* Record types and the document frame                                        *)
 (* ------------------------------------------------------------------------- *)
@@ -794,7 +1342,7 @@ Lemma fields_complete cfg fields : forall c,
   objects c + N.of_nat (length fields) <= max_object_count cfg ->
   exists c', steps cfg c fields = Some c' /\
     stack c' = stack c /\ depth c' = depth c /\ objects c' = objects c + N.of_nat (length fields) /\
-    rectypes c' = rectypes c /\ fwd c' = fwd c /\ rectype_name c' = rectype_name c /\
+    rectypes c' = rectypes c /\ regs c' = regs c /\ rectype_name c' = rectype_name c /\
     e_rule (cur c') = RRecordType /\ e_dtype (cur c') = e_dtype (cur c) /\ e_expected (cur c') = None /\
     e_count (cur c') = e_count (cur c) + N.of_nat (length fields).
 Proof.
@@ -823,12 +1371,12 @@ Proof.
       * eapply Fr; [right; exact I' | exact NK'].
     + rewrite E4. lia.
     + exists c2. split; [cbn [steps]; rewrite S1; exact S2|]. rewrite E1 in U8, U10. cbn in U8, U10.
-      repeat split; try congruence; lia.
+      unfold regs in *. repeat split; try congruence; lia.
 Qed.
 
 (* the state between the top-level items *)
 Definition TopS (c : rctx) (rts : list (bytes * N)) (nobj : N) : Prop :=
-  e_rule (cur c) = RTopLevel /\ e_expected (cur c) = None /\ e_count (cur c) = 0 /\ stack c = [] /\ depth c = 0 /\ fwd c = [] /\
+  e_rule (cur c) = RTopLevel /\ e_expected (cur c) = None /\ e_count (cur c) = 0 /\ stack c = [] /\ depth c = 0 /\ regs c = ([], [], 0) /\
   rectypes c = rts /\ objects c = nobj.
 
 Lemma frame_cells :
@@ -856,7 +1404,7 @@ Proof.
   (* the record type event *)
   assert (exists c1, rstep cfg c (ERecordType id) = Some (c1, [ERecordType id]) /\
             cur c1 = mk_entry RRecordType DT_RecordType None /\ stack c1 = [cur c] /\ depth c1 = 1 /\
-            objects c1 = nobj + 1 /\ rectypes c1 = rts /\ fwd c1 = [] /\ rectype_name c1 = id) as [c1 [S1 [E1 [E2 [E3 [E4 [E5 [E6 E7]]]]]]]].
+            objects c1 = nobj + 1 /\ rectypes c1 = rts /\ regs c1 = ([], [], 0) /\ rectype_name c1 = id) as [c1 [S1 [E1 [E2 [E3 [E4 [E5 [E6 E7]]]]]]]].
   { rewrite rstep_plan. cbn [ev_plan]. rewrite Vi. unfold mkplan, plan_step. cbn [p_nno p_meth p_args p_out].
     unfold notify_new_object. rewrite T2. destruct (max_object_count cfg <? objects c + 1) eqn:X; [lia|].
     match goal with |- context [call_current cfg ?m ?a ?c0] => rewrite (call_current_cell cfg m a c0 RTopLevel) by (cbn; exact T1) end.
@@ -872,7 +1420,8 @@ Proof.
     rewrite (call_current_cell cfg _ _ c2 RRecordType U7), C1. cbn [exec_prims exec_prim]. unfold end_container.
     rewrite U2, E3. cbn [N.eqb]. rewrite U9, U8, E1. cbn [mk_entry e_dtype]. rewrite N.eqb_refl, U6, E7, U4, E5, A.
     unfold end_container_like, unstack_rule. rsimpl. rewrite U1, E2. eexists. split; [reflexivity|].
-    unfold TopS. rsimpl. rewrite U10, E1, U5, E6, U3, E4. cbn [mk_entry e_count]. repeat split; auto. rewrite U2, E3. reflexivity. }
+    unfold TopS. rsimpl. rewrite U10, E1, U3, E4. cbn [mk_entry e_count].
+    repeat split; auto; try (rewrite U2, E3; reflexivity); exact (eq_trans U5 E6). }
   exists c3. split.
   - cbn [steps]. rewrite S1, steps_app, S2, steps_app, steps_trivia by (rewrite U7; reflexivity). cbn [steps]. rewrite S3. reflexivity.
   - exact T'.
@@ -903,7 +1452,7 @@ Proof.
       { cbn [flatten_top]. rewrite object_usage_cons, !object_usage_app, object_usage_trivia. cbn [counts_object].
         change (object_usage [EEnd]) with 0. clear -C2. induction fields as [|k fields IHf]; [reflexivity|].
         cbn [forallb length] in *. apply andb_true_iff in C2 as [Ck C2]. rewrite object_usage_cons.
-        destruct (key_ok_key_of _ _ Ck) as [rk K]. rewrite (key_event_object _ _ K). specialize (IHf C2). lia. }
+        destruct (key_ok_key_of _ _ Ck) as [rk K]. rewrite (proj1 (key_event_object _ _ K)). specialize (IHf C2). lia. }
       rewrite Z in O |- *.
       assert (1 <= max_container_depth cfg) as D1 by (cbn in D; exact D).
       destruct (rectype_complete cfg c rts nobj id fields close T C1 C2 C3 A) as [c1 [S1 T1]]; [lia | exact D1 |].
@@ -913,13 +1462,16 @@ Proof.
         with (nobj + 1 + N.of_nat (length fields) + object_usage (flat_map flatten_top pre)) by lia. exact T'.
 Qed.
 
-(* C10 (c): every well-formed document of the fragment, within the object and depth limits, is accepted *)
+(* C10 (c): every well-formed document of the fragment, within the object, depth and marker limits, is accepted *)
 Theorem wf_doc_accepted cfg d :
   wf_doc cfg d = true ->
   object_usage (flatten_doc cfg d) <= max_object_count cfg -> doc_height d <= max_container_depth cfg ->
+  marker_usage (flatten_doc cfg d) <= max_local_reference_count cfg ->
   accepts_document cfg (flatten_doc cfg d) = true.
 Proof.
-  intros W O D. unfold wf_doc in W. destruct (declare cfg [] (d_pre d)) as [rts|] eqn:Dc; [|discriminate].
+  intros W O D M. unfold wf_doc in W. destruct (declare cfg [] (d_pre d)) as [rts|] eqn:Dc; [|discriminate].
+  apply andb_true_iff in W as [W Wr]. apply andb_true_iff in W as [W Wt].
+  destruct (reg_val (d_top d) ([], [])) as [[mk' fw']|] eqn:Rl; [|discriminate]. destruct fw'; [|discriminate]. clear Wr.
   apply accepts_document_steps. unfold flatten_doc in *.
   destruct frame_cells as [_ [_ [C1 [C2 C3]]]].
   (* begin, version *)
@@ -931,19 +1483,25 @@ Proof.
     rewrite C2. cbn [exec_prims exec_prim a_version]. rewrite N.eqb_refl.
     eexists. split; [reflexivity|]. unfold TopS. cbn. repeat split. }
   rewrite object_usage_cons, object_usage_cons, !object_usage_app in O. cbn [counts_object] in O.
+  rewrite marker_usage_cons, marker_usage_cons, !marker_usage_app in M. cbn [is_marker] in M.
   change (object_usage [EEndDoc]) with 0 in O. unfold doc_height in D. fold (has_rectype (d_pre d)) in D.
   destruct (pre_complete cfg (d_pre d) c0 [] rts 0 T0 Dc) as [c1 [S1 T1]]; [lia | destruct (has_rectype (d_pre d)); lia |].
   destruct T1 as [T1 [T2 [T3 [T4 [T5 [T6 [T7 T8]]]]]]].
+  unfold regs in T6. inversion T6 as [[T61 T62 T63]].
   (* the top-level value *)
-  destruct (value_complete cfg (d_top d) c1 false) as [c2 [S2 V2]].
-  { rewrite T7. exact W. } { rewrite T1. reflexivity. } { rewrite T1. cbn. discriminate. } { unfold room. rewrite T2. exact I. }
-  { rewrite T8. lia. } { rewrite T5. lia. }
-  unfold view in V2. inversion V2 as [[E1 E2 E3 E4 E5 E6]]. clear V2.
+  destruct (proj1 (value_complete cfg (d_top d)) c1 false [] [] mk' []) as [c2 [S2 [V2 [Rg2 Rc2]]]];
+    try assumption; try solve [rewrite T7; exact W]; try solve [rewrite T1; reflexivity]; try solve [rewrite T1; cbn; discriminate];
+    try solve [intros _; exact Wt]; try solve [unfold room; rewrite T2; exact I]; try solve [rewrite T8; lia]; try solve [rewrite T5; lia];
+    try solve [rewrite T63; lia];
+    try solve [unfold Reg, RegL; rewrite T62, T61; cbn; repeat split; try tauto; intros; discriminate].
+  unfold core in V2. inversion V2 as [[E1 E2 E3 E4 E5]]. clear V2.
+  assert (fwd c2 = []) as F2.
+  { destruct Rg2 as [_ [R2 _]]. destruct (fwd c2) as [|[k x] l]; [reflexivity|]. exfalso. apply (R2 k). left. reflexivity. }
   (* end of document *)
   assert (exists c3, rstep cfg c2 EEndDoc = Some (c3, [EEndDoc]) /\ e_rule (cur c3) = RTerminal) as [c3 [S3 T']].
   { rewrite rstep_plan. cbn [ev_plan]. unfold mkplan, plan_step. cbn [p_nno p_meth p_args p_out].
     assert (e_rule (cur c2) = REndDocument) as R by (rewrite E1; cbn; rewrite T1; reflexivity).
-    rewrite (call_current_cell cfg _ _ c2 REndDocument R), C3. cbn [exec_prims exec_prim]. rewrite E6, T6.
+    rewrite (call_current_cell cfg _ _ c2 REndDocument R), C3. cbn [exec_prims exec_prim]. rewrite F2.
     eexists. split; reflexivity. }
   exists c3. split; [|exact T'].
   change (EBeginDoc :: EVersion (expected_version cfg) :: flat_map flatten_top (d_pre d) ++ flatten (d_top d) ++ [EEndDoc])
